@@ -6,28 +6,39 @@
    changed or re-proved; this file only reasons about their specification functions.
 
    WHAT IS TRUE AND WHAT IS NOT (summary; details below).
-   * TRUE for all six streams: along any sequence of calls in which EVERY call (constructor/init included) returned
-     nil, the writer took exactly the complete message (NO SILENT LOSS), and a call during which the writer
-     reports an error returns a non-nil error (ERROR RETURNED AT ONCE).
+   * TRUE for all six streams, for EVERY behaviour of the writer: along any sequence of calls in which every call
+     (constructor/init included) returned nil, the writer took exactly the complete message (NO SILENT LOSS), and a
+     call during which the writer reports an error returns a non-nil error (ERROR RETURNED AT ONCE).
    * TRUE: encryptStream.Write, signcryptSealStream.Write and the base-X encoder (Write AND Close) are sticky.
-   * NOT TRUE as the property is worded ("Close never reports success for an incomplete message"), for a caller who
-     calls Close after a Write has returned an error:
-       - encryptStream.Close and signcryptSealStream.Close never read the err field (es_close_ignores_err,
-         sss_close_ignores_err);
-       - signAttachedStream and armorEncoderStream have no err field at all.
-     A failed encryptBlock / signcryptBlock / signBlock has already taken its block off the buffer and has NOT
-     advanced numBlocks / seqno (es_block_from_failed, sss_block_from_failed, sas_block_from_failed).  So with a
-     writer that fails once and then works again:
-         NewEncryptStream(v2); Write(1 MiB + 1 byte "…a") -> ErrIO;  Close() -> nil
-     leaves in the writer, byte for byte, the complete, valid, authenticated message for the plaintext "a",
-     encrypted under block number 0 - the nonce the lost block was encrypted under - and Close reports success
-     (ex_enc_close_after_failed_write; the same for signcryption: ex_sc_close_after_failed_write, and attached
-     signing: ex_sas_close_after_failed_write; for the armor stream the accepted text is the armor minus its
-     first word: ex_ar_close_after_failed_write).  These are evaluated with vm_compute on the specification
-     functions with real 1 MiB blocks (toy primitives of model/ToyCrypto.v, which do not matter here).
-     The step function of the witness is an encoder that takes NOTHING of the packet it refuses; whether go-codec's
-     encoder over a real io.Writer can do that is outside the specification functions (they quantify over all
-     step functions).
+   * The property as worded - "Close never reports success for a message that was not completely written" - for a
+     caller who calls Close after a Write has returned an error:
+     - is NOT a property of saltpack's own code.  encryptStream.Close and signcryptSealStream.Close never read the
+       err field (es_close_ignores_err, sss_close_ignores_err); signAttachedStream and armorEncoderStream have no
+       err field.  A failed encryptBlock / signcryptBlock / signBlock has already taken its block off the buffer
+       and has NOT advanced numBlocks / seqno (es_block_from_failed, sss_block_from_failed,
+       sas_block_from_failed).  With an encoder step that refuses one packet (taking nothing) and works again:
+           NewEncryptStream(v2); Write(1 MiB + 1 byte "...a") -> ErrIO;  Close() -> nil
+       leaves in the writer, byte for byte, the complete, valid, authenticated message for the plaintext "a",
+       encrypted under block number 0 - the nonce of the lost block - and Close reports success
+       (ex_enc_close_after_failed_write; likewise ex_sc_close_after_failed_write, ex_sas_close_after_failed_write;
+       vm_compute on the specification functions with real 1 MiB blocks, toy primitives).
+     - HOLDS for the three packet streams as soon as the encoder step is STICKY ([sticky_step]: once it has reported
+       an error it reports one on every later call): es_/sss_/sas_no_nil_close_after_error and
+       es_/sss_/sas_close_nil_complete.  go-codec's Encoder (github.com/keybase/go-codec, codec/encode.go:
+       Encode stores the error in e.err, MustEncode panics with it from then on) is sticky, and [codec s] is that
+       encoder put in front of an arbitrary step s (codec_sticky, codec_honest).  OBSERVED on /repo with a writer
+       that fails once (go run, scratch module): the sequence above gives Write -> "msgpack encode error: ErrIO",
+       Close -> "msgpack encode error: msgpack encode error: ErrIO" for NewEncryptStream, NewSignStream and
+       NewSigncryptSealStream.  So for these streams the property rests on an undocumented behaviour of the
+       msgpack library, not on saltpack's err fields.
+     - FAILS ON THE REAL CODE for the armor stream, which has no encoder above its writer:
+           NewArmor62EncoderStream(w, MessageTypeEncryption, ""); Write(32 x 'a') -> ErrIO (w fails at its 2nd call,
+           the first word, taking nothing; every other call succeeds);  Close() -> nil
+       and w holds a well-formed armor WITHOUT its first 15 characters (ex_ar_close_after_failed_write;
+       ar_not_sticky; observed on /repo: accepted = "BEGIN SALTPACK ENCRYPTED MESSAGE. bXgPHA2GIodRKMW
+       qFoG6wORij4M5. END SALTPACK ENCRYPTED MESSAGE.\n" instead of "... N5hE1K77FJnXznZ bXgPHA2GIodRKMW ...").
+       Inside the armored sender APIs the encryption/signing stream above it fails first (its sticky encoder), and
+       closeForwarder returns that error: stack_close_nil_complete.
 
    THE SETTING.
    - packet streams (Enc, SignA, SignD, Sc): [step] = gval -> bytes -> gval * gerr is the section variable enc_step
@@ -75,7 +86,9 @@
      sas_new_reports, Sc.sss_write_reports / sss_close_reports / sss_init_reports, SignD.sds_new_reports:
      the call is run on [logged s] from an object with the flag down (es_enc st = instr o); if the flag is up
      afterwards, the call returned a non-nil error (constructors: if a stream is returned the flag is down).
-     No other hypothesis.  (es_write_logged_ok: a nil-returning call on [logged s] is that call on s.)
+     No other hypothesis.  Enc.es_logged_transparent, SignA.sas_logged_transparent, Sc.sss_logged_transparent: the
+     instrumentation changes nothing: every call of any run on [logged s] returns what it returns on s, and the
+     receiver objects differ only by the flag on the encoder (full simulation, *_bisim lemmas).
      SignD.sds_close_reports / sds_write_no_step: Close returns exactly its one step's error; Write makes no step.
    - Bx.bx_call_reports, Ar.ar_write_reports, Ar.ar_close_reports: a call uses j entries of the schedule; it returns nil
      IFF all j were nil, and an error it returns is one of them.  Hypotheses: gobj_ok/go_err = None, resp. inv.
@@ -89,13 +102,33 @@
    - Bx.bx_sticky, bx_error_sticks: with e.err set Write AND Close return it and do nothing; a call that returned an
      error has set it.  The base-X encoder is the one stream whose Close is sticky.
    - Ar.ar_not_sticky: after a failed Write the armor object satisfies inv again (the next call runs normally).
+   6. C14 AS WORDED, UNDER THE STICKY-ENCODER HYPOTHESIS ([sticky_step broken s]: a step that reports an error leaves a
+      broken object, and on a broken object every step reports an error and leaves it broken)
+   - Enc.es_no_nil_close_after_error, Sc.sss_no_nil_close_after_error, SignA.sas_no_nil_close_after_error: in any run,
+     after a call that returned an error no later Close returns nil.  Hypotheses: sticky_step; Enc/Sc: [Inv st] on
+     the starting object (err = nil, or the encoder is broken / the counter exhausted: true after init, init_inv).
+   - Enc.es_close_nil_all_nil: init; Write*; Close all made (length of the result list) and the last entry nil ==>
+     all entries nil.  Enc.es_close_nil_complete, Sc.sss_close_nil_complete, SignA.sas_close_nil_complete: with
+     [honest] and a fresh writer in addition ==> the writer took the complete message (the conclusion of
+     *_no_silent_loss_pieces).  SignD.sds_close_nil_all_nil: the same for the detached signer, with NO hypothesis on
+     the step (Write makes no step, Close one).
+   - Enc.es_close_nil_all_nil, Sc.sss_close_nil_all_nil, SignA.sas_close_nil_all_nil: the first half of the above alone
+     (sticky_step only).
+   - Comp.sign_stack_close_nil_complete, Comp.signcrypt_stack_close_nil_complete: Comp.stack_close_nil_complete (next item)
+     for the attached-signature and the signcryption stream.
+   - Comp.stack_close_nil_complete: encryptStream over [codec arm_step] (go-codec's sticky encoder over the armor
+     stream over the base-X encoder over a writer with any schedule): if all calls of the encryption stream were made,
+     its Close returned nil and the armor stream's Close returned nil, then every call returned nil and the
+     writer holds armor_seal of the in-memory ciphertext.  Hypotheses: the writer held header ++ ". "; the final
+     encoder object is [armor object; flag] and decodes.
    Examples (vm_compute; non-vacuity): ex_enc_complete, ex_enc_fault_reported, ex_enc_logged, ex_sas_*, ex_sds_*,
-   ex_sc_*, ex_bx_complete, ex_bx_fault_sticky, ex_ar_complete, ex_stack_complete, ex_stack_fault. *)
+   ex_sc_*, ex_bx_complete, ex_bx_fault_sticky, ex_ar_complete, ex_stack_complete, ex_stack_fault,
+   ex_enc_close_after_failed_write_codec (the witness sequence with the sticky encoder in between: Close fails). *)
 From Coq Require Import List String NArith ZArith Bool Lia.
 From Coq.Strings Require Import Byte.
 From SP Require Import Bytes Consts Params Msgpack Crypto Errors Nonce Packets Chunker Rand Encrypt Sign Signcrypt
                        BaseX Encodings Armor Streams StreamProofs ToyCrypto GoLang GoLang2.
-From SP Require GoAstProofs5a GoAstProofs5b GoAstProofs6a GoAstProofs6b.
+From SP Require GoAstProofs5a GoAstProofs5b GoAstProofs5d GoAstProofs6a GoAstProofs6b.
 Import ListNotations.
 
 (* ================= the generic layer ================= *)
@@ -170,6 +203,125 @@ Proof.
 Qed.
 End RunSim.
 
+Definition is_err (e : gerr) : bool := match e with Some _ => true | None => false end.
+
+(* full simulation: the two machines return the same thing at every call, and the states stay related *)
+Section RunBisim.
+Variables S1 S2 : Type.
+Variable call1 : S1 -> op -> outc * S1.
+Variable call2 : S2 -> op -> outc * S2.
+Variable rel : S1 -> S2 -> Prop.
+Hypothesis Hcall : forall st1 st2 o, rel st1 st2 ->
+  fst (call1 st1 o) = fst (call2 st2 o) /\ rel (snd (call1 st1 o)) (snd (call2 st2 o)).
+
+Lemma run_bisim (ops : list op) : forall st1 st2, rel st1 st2 ->
+  fst (run call1 st1 ops) = fst (run call2 st2 ops) /\ rel (snd (run call1 st1 ops)) (snd (run call2 st2 ops)).
+Proof.
+  induction ops as [|o t IH]; intros st1 st2 Hr; cbn [run]; [split; [reflexivity|exact Hr]|].
+  destruct (Hcall st1 st2 o Hr) as [H1 H2].
+  destruct (call1 st1 o) as [r1 sa]. destruct (call2 st2 o) as [r2 sa2]. cbn [fst snd] in *. subst r2.
+  destruct r1 as [e|w]; [|split; [reflexivity|exact H2]].
+  destruct (IH sa sa2 H2) as [I1 I2].
+  destruct (run call1 sa t) as [r sb]. destruct (run call2 sa2 t) as [r' sb2]. cbn [fst snd] in *. subst r'.
+  split; [reflexivity|exact I2].
+Qed.
+End RunBisim.
+
+Definition step_bisim (R : gval -> gval -> Prop) (s1 s2 : step) : Prop :=
+  forall o1 o2 pkt, R o1 o2 -> snd (s1 o1 pkt) = snd (s2 o2 pkt) /\ R (fst (s1 o1 pkt)) (fst (s2 o2 pkt)).
+
+(* runs through states from which Close cannot succeed ([bad]), under an invariant [Inv]: after a call that
+   returned an error, no later Close returns nil *)
+Section RunBad.
+Variable St : Type.
+Variable call : St -> op -> outc * St.
+Variables Inv bad : St -> Prop.
+Hypothesis Hcall : forall st o e st', Inv st -> call st o = (Ret e, st') ->
+  Inv st' /\ (bad st -> bad st') /\ (e <> None -> bad st') /\ (o = OpClose -> bad st -> e <> None).
+
+Lemma run_bad_close (ops : list op) : forall st outs st', Inv st -> bad st -> run call st ops = (outs, st') ->
+  forall j, nth_error ops j = Some OpClose -> nth_error outs j <> Some (Ret None).
+Proof.
+  induction ops as [|o t IH]; intros st outs st' Hi Hb; cbn [run].
+  - intros _ j Hj. destruct j; discriminate Hj.
+  - destruct (call st o) as [[e|w] sa] eqn:Ec.
+    + destruct (Hcall st o e sa Hi Ec) as (Hi' & Hb' & _ & Hcl).
+      destruct (run call sa t) as [r sb] eqn:Er. intros H j Hj. injection H as <- <-.
+      destruct j as [|j]; cbn [nth_error] in *.
+      * injection Hj as ->. intros H. injection H as ->. exact (Hcl eq_refl Hb eq_refl).
+      * exact (IH sa r sb Hi' (Hb' Hb) Er j Hj).
+    + intros H j Hj. injection H as <- <-. destruct j as [|j]; cbn [nth_error]; [discriminate|]. destruct j; discriminate.
+Qed.
+
+Theorem run_no_nil_close_after_error (ops : list op) : forall st outs st', Inv st -> run call st ops = (outs, st') ->
+  forall i j e, (i < j)%nat -> nth_error outs i = Some (Ret (Some e)) -> nth_error ops j = Some OpClose ->
+  nth_error outs j <> Some (Ret None).
+Proof.
+  induction ops as [|o t IH]; intros st outs st' Hi; cbn [run].
+  - intros _ i j e _ _ Hj. destruct j; discriminate Hj.
+  - destruct (call st o) as [[e0|w] sa] eqn:Ec.
+    + destruct (Hcall st o e0 sa Hi Ec) as (Hi' & _ & Hbe & _).
+      destruct (run call sa t) as [r sb] eqn:Er. intros H i j e Hij Hi0 Hj. injection H as <- <-.
+      destruct j as [|j]; [inversion Hij|]. cbn [nth_error] in Hj |- *.
+      destruct i as [|i]; cbn [nth_error] in Hi0.
+      * injection Hi0 as ->. apply (run_bad_close t sa r sb Hi' (Hbe ltac:(discriminate)) Er j Hj).
+      * apply (IH sa r sb Hi' Er i j e ltac:(lia) Hi0 Hj).
+    + intros H i j e Hij Hi0 Hj. injection H as <- <-.
+      destruct j as [|j]; [inversion Hij|]. cbn [nth_error]. destruct j; discriminate.
+Qed.
+
+(* ... hence: if all the calls were made and the final Close returned nil, every call returned nil *)
+Lemma run_bad_last (t : list op) : forall st outs st', Inv st -> bad st ->
+  run call st (t ++ [OpClose]) = (outs, st') -> List.length outs = S (List.length t) -> last outs (Halt EmptyString) <> Ret None.
+Proof.
+  intros st outs st' Hi Hb Hr Hl Hlast.
+  assert (Hj : nth_error (t ++ [OpClose]) (List.length t) = Some OpClose).
+  { rewrite nth_error_app2 by lia. rewrite Nat.sub_diag. reflexivity. }
+  apply (run_bad_close _ st outs st' Hi Hb Hr _ Hj).
+  clear - Hl Hlast. revert t Hl. induction outs as [|a outs IHo]; intros t Hl; [discriminate Hl|].
+  destruct outs as [|b outs].
+  - cbn in Hl. injection Hl as Hl. rewrite <- Hl. cbn in *. rewrite Hlast. reflexivity.
+  - destruct t as [|x t]; [discriminate Hl|]. cbn [List.length nth_error] in *. apply IHo; [exact Hlast|lia].
+Qed.
+
+Theorem run_last_close_nil (ops : list op) : forall st outs st', Inv st ->
+  run call st (ops ++ [OpClose]) = (outs, st') -> List.length outs = S (List.length ops) ->
+  last outs (Halt EmptyString) = Ret None -> all_nil outs.
+Proof.
+  induction ops as [|o t IH]; intros st outs st' Hi; cbn [app].
+  - cbn [run]. destruct (call st OpClose) as [[e|w] sa]; intros H Hl Hlast; injection H as <- <-; cbn [last] in Hlast.
+    + rewrite Hlast. constructor; [reflexivity|constructor].
+    + discriminate Hlast.
+  - cbn [run]. destruct (call st o) as [[e|w] sa] eqn:Ec.
+    + destruct (Hcall st o e sa Hi Ec) as (Hi' & _ & Hbe & _).
+      destruct (run call sa (t ++ [OpClose])) as [r sb] eqn:Er. intros H Hl Hlast. injection H as <- <-.
+      cbn [List.length] in Hl. injection Hl as Hl.
+      assert (Hlast' : last r (Halt EmptyString) = Ret None).
+      { destruct r as [|b r]; [discriminate Hl|]. exact Hlast. }
+      destruct e as [e|].
+      * exfalso. exact (run_bad_last t sa r sb Hi' (Hbe ltac:(discriminate)) Er Hl Hlast').
+      * constructor; [reflexivity|]. exact (IH sa r sb Hi' Er Hl Hlast').
+    + intros H Hl. injection H as <- <-. cbn [List.length] in Hl. destruct t; discriminate Hl.
+Qed.
+End RunBad.
+
+(* A STICKY step (go-codec's Encoder: codec/encode.go stores the first error in e.err and MustEncode panics with it
+   from then on): once it has reported an error it reports an error on every later call *)
+Definition sticky_step (broken : gval -> Prop) (s : step) : Prop :=
+  (forall o pkt, snd (s o pkt) <> None -> broken (fst (s o pkt))) /\
+  (forall o pkt, broken o -> snd (s o pkt) <> None /\ broken (fst (s o pkt))).
+
+(* the sticky encoder put in front of ANY step: the object is [o; broken?] *)
+Definition codec (s : step) : step := fun o pkt =>
+  match o with
+  | VList [o0; VBool false] => let r := s o0 pkt in (VList [fst r; VBool (is_err (snd r))], snd r)
+  | _ => (o, Some ("ErrEncoderBroken"%string, []))
+  end.
+Definition codec_obj (o : gval) : gval := VList [o; VBool false].
+Definition codec_broken (o : gval) : Prop := forall o0, o <> codec_obj o0.
+Definition codec_written (written : gval -> bytes) (o : gval) : bytes :=
+  match o with VList [o0; VBool _] => written o0 | _ => [] end.
+
 (* HONEST-OR-FAILING: a step that reports success has taken exactly the packet; nothing is assumed about a
    step that reports an error *)
 Definition honest (written : gval -> bytes) (s : step) : Prop :=
@@ -184,7 +336,6 @@ Definition step_sim (R : gval -> gval -> Prop) (s1 s2 : step) : Prop :=
     snd (s2 o2 pkt) = None /\ R (fst (s1 o1 pkt)) (fst (s2 o2 pkt)).
 
 (* an INSTRUMENTED step: the object carries a flag "the step has reported an error" *)
-Definition is_err (e : gerr) : bool := match e with Some _ => true | None => false end.
 Definition logged (s : step) : step := fun o pkt =>
   match o with
   | VList [o0; VBool b] => let r := s o0 pkt in (VList [fst r; VBool (b || is_err (snd r))], snd r)
@@ -198,6 +349,48 @@ Lemma logged_sim (s : step) : step_sim clean_of (logged s) s.
 Proof.
   intros o1 o2 pkt -> H. unfold instr, logged in *. cbn [fst snd] in *.
   rewrite H. cbn [is_err orb]. split; reflexivity.
+Qed.
+
+(* the instrumented step is the step, on the object under the flag *)
+Definition under_flag (o1 o2 : gval) : Prop := exists b, o1 = VList [o2; VBool b].
+Lemma logged_bisim (s : step) : step_bisim under_flag (logged s) s.
+Proof.
+  intros o1 o2 pkt [b ->]. unfold logged. cbn [fst snd]. split; [reflexivity|]. eexists. reflexivity.
+Qed.
+
+Lemma classic_obj (o : gval) : (exists o0, o = codec_obj o0) \/ codec_broken o.
+Proof.
+  unfold codec_broken, codec_obj.
+  destruct o as [z|b|b|f|l| |n a]; try (right; intros o0 H; discriminate H).
+  destruct l as [|x l]; [right; intros o0 H; discriminate H|].
+  destruct l as [|y l]; [right; intros o0 H; discriminate H|].
+  destruct l; [|right; intros o0 H; discriminate H].
+  destruct y as [z|b|b|f|l0| |n a]; try (right; intros o0 H; discriminate H).
+  destruct b; [right; intros o0 H; discriminate H|]. left. exists x. reflexivity.
+Qed.
+Lemma codec_sticky (s : step) : sticky_step codec_broken (codec s).
+Proof.
+  assert (Hb : forall o, codec_broken o -> forall pkt, codec s o pkt = (o, Some ("ErrEncoderBroken"%string, []))).
+  { intros o Hb pkt. unfold codec.
+    destruct o as [z|b|b|f|l| |n a]; try reflexivity.
+    destruct l as [|x l]; [reflexivity|]. destruct l as [|y l]; [reflexivity|].
+    destruct y as [z|b|b|f|l0| |n a]; try reflexivity. destruct l; [|destruct b; reflexivity].
+    destruct b; [reflexivity|]. exfalso. exact (Hb x eq_refl). }
+  split.
+  - intros o pkt He. destruct (classic_obj o) as [[o0 ->]|Hbr].
+    + unfold codec, codec_obj in *. cbn [fst snd] in *. intros o1 H. injection H as _ H.
+      destruct (snd (s o0 pkt)); [discriminate H|contradiction].
+    + rewrite (Hb o Hbr pkt). exact Hbr.
+  - intros o pkt Hbr. rewrite (Hb o Hbr pkt). cbn [fst snd]. split; [discriminate|exact Hbr].
+Qed.
+Lemma codec_honest (written : gval -> bytes) (s : step) : honest written s -> honest (codec_written written) (codec s).
+Proof.
+  intros Hh o pkt o' H. unfold codec in H.
+  destruct o as [z|b|b|f|l| |n a]; try discriminate H.
+  destruct l as [|x l]; [discriminate H|]. destruct l as [|y l]; [discriminate H|].
+  destruct y as [z|b|b|f|l0| |n a]; try discriminate H. destruct l; [|destruct b; discriminate H].
+  destruct b; [discriminate H|]. destruct (s x pkt) as [x' e] eqn:E. cbn [fst snd] in H. injection H as <- ->.
+  cbn [codec_written]. exact (Hh _ _ _ E).
 Qed.
 
 (* test writers: the k-th call (from 0) fails after taking only the first [take] bytes of the packet, every other call
@@ -480,6 +673,130 @@ Proof.
   exists (es_enc st2). split; [exact HR|]. rewrite Hw2, Heq at 1. reflexivity.
 Qed.
 
+(* ---------- full simulation: related steps with EQUAL errors give equal results at every call ---------- *)
+Section Bisim.
+Variables s1 s2 : step.
+Variable R : gval -> gval -> Prop.
+Hypothesis Hbis : step_bisim R s1 s2.
+
+Definition brel (r1 r2 : bres) : Prop :=
+  match r1, r2 with
+  | BStuck w1, BStuck w2 => w1 = w2
+  | BRet e1 a1, BRet e2 a2 => e1 = e2 /\ rel R a1 a2
+  | _, _ => False
+  end.
+Definition wrel (r1 r2 : wres) : Prop :=
+  match r1, r2 with
+  | WStuck w1, WStuck w2 => w1 = w2
+  | WRet n1 e1 a1, WRet n2 e2 a2 => n1 = n2 /\ e1 = e2 /\ rel R a1 a2
+  | _, _ => False
+  end.
+Definition crel (r1 r2 : cres) : Prop :=
+  match r1, r2 with
+  | CloseStuck w1, CloseStuck w2 => w1 = w2
+  | ClosePanic, ClosePanic => True
+  | CloseRet e1 a1, CloseRet e2 a2 => e1 = e2 /\ rel R a1 a2
+  | _, _ => False
+  end.
+
+Lemma block_from_bisim (st1 st2 : es_state) (f : bool) (pt rest : bytes) :
+  rel R st1 st2 -> brel (es_block_from c s1 st1 f pt rest) (es_block_from c s2 st2 f pt rest).
+Proof.
+  intros [HR Heq]. destruct st1 as [v w1 pk buf hh mks n err]. rewrite Heq. clear Heq.
+  generalize dependent (es_enc st2). intros w2 HR. clear st2.
+  unfold es_block_from, set_enc, set_buf, set_n.
+  cbn [es_v es_enc es_pk es_buf es_hh es_mks es_n es_err] in *.
+  destruct (negb (read_ok v f 1048576 (Z.of_nat (List.length pt)) (Z.of_nat (List.length rest)))); [reflexivity|].
+  destruct (negb (block_number_ok n)); [split; [reflexivity|split; [exact HR|reflexivity]]|].
+  destruct (negb (enc_chunk_ok v (sb_seal c pk (nonce_chunk_secretbox n) pt) 16 n f)); [reflexivity|].
+  destruct (payload_hash c v hh (nonce_chunk_secretbox n) (sb_seal c pk (nonce_chunk_secretbox n) pt) f) as [ph|]; [|reflexivity].
+  match goal with |- context [s1 w1 ?p] => destruct (Hbis w1 w2 p HR) as [H1 H2]; destruct (s1 w1 p) as [w1' e1]; destruct (s2 w2 p) as [w2' e2] end.
+  cbn [fst snd] in *. subst e2. destruct e1 as [e1|]; (split; [reflexivity|split; [exact H2|reflexivity]]).
+Qed.
+Lemma block_bisim (st1 st2 : es_state) (f : bool) :
+  rel R st1 st2 -> brel (es_block c s1 st1 f) (es_block c s2 st2 f).
+Proof. intros Hr. unfold es_block. rewrite (rel_buf R _ _ Hr). apply block_from_bisim. exact Hr. Qed.
+
+Lemma drain_bisim (fuel : nat) : forall (st1 st2 : es_state) (ret : Z),
+  rel R st1 st2 -> wrel (es_drain c s1 fuel st1 ret) (es_drain c s2 fuel st2 ret).
+Proof.
+  induction fuel as [|fuel IH]; intros st1 st2 ret Hr; cbn [es_drain]; [reflexivity|].
+  rewrite (rel_buf R _ _ Hr).
+  destruct (1048576 <? Z.of_nat (List.length (es_buf st1)))%Z; [|split; [reflexivity|split; [reflexivity|exact Hr]]].
+  pose proof (block_bisim _ _ false Hr) as Hb.
+  destruct (es_block c s1 st1 false) as [w|e sa]; destruct (es_block c s2 st2 false) as [w'|e' sa2]; cbn [brel] in Hb; try contradiction.
+  - reflexivity.
+  - destruct Hb as [<- Hr2]. destruct e as [e|].
+    + split; [reflexivity|]. split; [reflexivity|]. apply rel_set_err. exact Hr2.
+    + apply IH. apply rel_set_err. exact Hr2.
+Qed.
+Lemma write_bisim (st1 st2 : es_state) (p : bytes) :
+  rel R st1 st2 -> wrel (es_write c s1 st1 p) (es_write c s2 st2 p).
+Proof.
+  intros Hr. unfold es_write.
+  assert (He : es_err st2 = es_err st1) by (destruct Hr as [_ ->]; reflexivity).
+  rewrite He, (rel_buf R _ _ Hr). destruct (es_err st1); [split; [reflexivity|split; [reflexivity|exact Hr]]|].
+  apply drain_bisim. apply rel_set_buf. exact Hr.
+Qed.
+Lemma close_bisim (st1 st2 : es_state) :
+  rel R st1 st2 -> crel (es_close c s1 st1) (es_close c s2 st2).
+Proof.
+  intros Hr. unfold es_close, es_close_v2, es_close_v1_tail.
+  assert (Hv : es_v st2 = es_v st1) by (destruct Hr as [_ ->]; reflexivity).
+  rewrite Hv, (rel_buf R _ _ Hr).
+  assert (Hfin : forall a1 a2, rel R a1 a2 ->
+            crel (if (0 <? Z.of_nat (List.length (es_buf a1)))%Z then ClosePanic
+                  else match es_block c s1 a1 true with BStuck _ => CloseStuck "call" | BRet e st3 => CloseRet e st3 end)
+                 (if (0 <? Z.of_nat (List.length (es_buf a2)))%Z then ClosePanic
+                  else match es_block c s2 a2 true with BStuck _ => CloseStuck "call" | BRet e st3 => CloseRet e st3 end)).
+  { intros a1 a2 Ha. rewrite (rel_buf R _ _ Ha). destruct (0 <? Z.of_nat (List.length (es_buf a1)))%Z; [exact I|].
+    pose proof (block_bisim _ _ true Ha) as Hb.
+    destruct (es_block c s1 a1 true) as [w|e sa]; destruct (es_block c s2 a2 true) as [w'|e' sa2]; cbn [brel] in Hb; try contradiction.
+    - reflexivity.
+    - exact Hb. }
+  destruct (version_eqb (es_v st1) v1).
+  - destruct (0 <? Z.of_nat (List.length (es_buf st1)))%Z eqn:E0.
+    + pose proof (block_bisim _ _ false Hr) as Hb.
+      destruct (es_block c s1 st1 false) as [w|e sa]; destruct (es_block c s2 st2 false) as [w'|e' sa2]; cbn [brel] in Hb; try contradiction.
+      * reflexivity.
+      * destruct Hb as [<- Hr2]. destruct e as [e|]; [split; [reflexivity|exact Hr2]|]. apply Hfin. exact Hr2.
+    + apply Hfin. exact Hr.
+  - destruct (version_eqb (es_v st1) v2); [|exact I].
+    pose proof (block_bisim _ _ true Hr) as Hb.
+    destruct (es_block c s1 st1 true) as [w|e sa]; destruct (es_block c s2 st2 true) as [w'|e' sa2]; cbn [brel] in Hb; try contradiction.
+    + reflexivity.
+    + destruct Hb as [<- Hr2]. destruct e as [e|]; [split; [reflexivity|exact Hr2]|].
+      rewrite (rel_buf R _ _ Hr2). destruct (0 <? Z.of_nat (List.length (es_buf sa)))%Z; [exact I|split; [reflexivity|exact Hr2]].
+Qed.
+
+Lemma call_bisim (st1 st2 : es_state) (o : op) : rel R st1 st2 ->
+  fst (call s1 st1 o) = fst (call s2 st2 o) /\ rel R (snd (call s1 st1 o)) (snd (call s2 st2 o)).
+Proof.
+  intros Hr. destruct o as [p|]; cbn [call].
+  - pose proof (write_bisim _ _ p Hr) as Hw.
+    destruct (es_write c s1 st1 p) as [w|n e sa]; destruct (es_write c s2 st2 p) as [w'|n' e' sa2]; cbn [wrel] in Hw; try contradiction.
+    + subst w'. split; [reflexivity|exact Hr].
+    + destruct Hw as (_ & <- & Hr2). split; [reflexivity|exact Hr2].
+  - pose proof (close_bisim _ _ Hr) as Hc.
+    destruct (es_close c s1 st1) as [w| |e sa]; destruct (es_close c s2 st2) as [w'| |e' sa2]; cbn [crel] in Hc; try contradiction.
+    + subst w'. split; [reflexivity|exact Hr].
+    + split; [reflexivity|exact Hr].
+    + destruct Hc as [<- Hr2]. split; [reflexivity|exact Hr2].
+Qed.
+End Bisim.
+
+(* (TARGET) the instrumentation is transparent: every call of a run on [logged s] returns what it returns on s, and the
+   objects differ only by the flag on the encoder *)
+Theorem es_logged_transparent (s : step) (st : es_state) (o : gval) (b : bool) (ops : list op) :
+  es_enc st = VList [o; VBool b] ->
+  fst (run (call (logged s)) st ops) = fst (run (call s) (set_enc st o) ops) /\
+  rel under_flag (snd (run (call (logged s)) st ops)) (snd (run (call s) (set_enc st o) ops)).
+Proof.
+  intros He.
+  apply (run_bisim _ _ (call (logged s)) (call s) (rel under_flag) (call_bisim (logged s) s under_flag (logged_bisim s))).
+  split; [exists b; exact He|reflexivity].
+Qed.
+
 (* ---------- the sticky error of Write; Close does not look at it ---------- *)
 (* (TARGET) a block whose packet the step refuses (or that overflows the counter) is gone from the buffer, and
    numBlocks - the nonce - is not advanced *)
@@ -600,6 +917,175 @@ Proof.
   intros q. apply es_write_sticky. exact He.
 Qed.
 
+
+(* ---------- with a STICKY step (go-codec's Encoder), Close cannot succeed after an error ---------- *)
+Section Sticky.
+Variable s : step.
+Variable broken : gval -> Prop.
+Hypothesis Hst : sticky_step broken s.
+
+(* states from which no packet can be emitted any more: the encoder is broken, or the packet counter is exhausted *)
+Definition bad (st : es_state) : Prop := broken (es_enc st) \/ block_number_ok (es_n st) = false.
+(* what init establishes and every call keeps: err is set only in such a state *)
+Definition Inv (st : es_state) : Prop := es_err st = None \/ bad st.
+
+Lemma block_from_bad (st : es_state) (f : bool) (pt rest : bytes) (e : gerr) (st' : es_state) :
+  es_block_from c s st f pt rest = BRet e st' ->
+  (e <> None -> bad st') /\ (bad st -> e <> None /\ bad st').
+Proof.
+  destruct Hst as [Hs1 Hs2].
+  destruct st as [v w pk buf hh mks n err]. unfold bad, es_block_from, set_enc, set_buf, set_n.
+  cbn [es_v es_enc es_pk es_buf es_hh es_mks es_n es_err].
+  destruct (negb (read_ok v f 1048576 (Z.of_nat (List.length pt)) (Z.of_nat (List.length rest)))); [discriminate|].
+  destruct (block_number_ok n) eqn:Hn; cbn [negb].
+  2:{ intros H. injection H as <- <-. cbn [es_enc es_n]. split; [intros _; right; exact Hn|].
+      intros _. split; [discriminate|right; exact Hn]. }
+  destruct (negb (enc_chunk_ok v (sb_seal c pk (nonce_chunk_secretbox n) pt) 16 n f)); [discriminate|].
+  destruct (payload_hash c v hh (nonce_chunk_secretbox n) (sb_seal c pk (nonce_chunk_secretbox n) pt) f) as [ph|]; [|discriminate].
+  match goal with |- context [s w ?p] => pose proof (Hs1 w p) as H1; pose proof (Hs2 w p) as H2; destruct (s w p) as [w' [e1|]] end;
+    cbn [fst snd] in *; intros H; injection H as <- <-; cbn [es_enc es_n].
+  - assert (Hb : broken w') by (apply H1; discriminate).
+    split; [intros _; left; exact Hb|]. intros _. split; [discriminate|left; exact Hb].
+  - split; [intros Hc; contradiction|]. intros [Hb|Hb]; [|discriminate Hb].
+    destruct (H2 Hb) as [Hc _]. contradiction.
+Qed.
+Lemma block_bad (st : es_state) (f : bool) (e : gerr) (st' : es_state) :
+  es_block c s st f = BRet e st' -> (e <> None -> bad st') /\ (bad st -> e <> None /\ bad st').
+Proof. unfold es_block. apply block_from_bad. Qed.
+
+Lemma bad_set_err (st : es_state) (e : gerr) : bad (set_err st e) <-> bad st.
+Proof. reflexivity. Qed.
+Lemma bad_set_buf (st : es_state) (b : bytes) : bad (set_buf st b) <-> bad st.
+Proof. reflexivity. Qed.
+
+Lemma drain_bad (fuel : nat) : forall (st : es_state) (ret n : Z) (e : gerr) (st' : es_state),
+  es_err st = None -> es_drain c s fuel st ret = WRet n e st' ->
+  (bad st -> bad st') /\ (e <> None -> bad st') /\ (e = None -> es_err st' = None).
+Proof.
+  induction fuel as [|fuel IH]; intros st ret n e st' Herr; cbn [es_drain]; [discriminate|].
+  destruct (1048576 <? Z.of_nat (List.length (es_buf st)))%Z.
+  - destruct (es_block c s st false) as [w|e0 sa] eqn:Eb; [discriminate|].
+    destruct (block_bad _ _ _ _ Eb) as [B1 B2].
+    destruct e0 as [e0|].
+    + intros H. injection H as _ <- <-. assert (Hb : bad sa) by (apply B1; discriminate).
+      split; [intros _; exact Hb|]. split; [intros _; exact Hb|discriminate].
+    + intros H. destruct (IH (set_err sa None) _ _ _ _ eq_refl H) as (I1 & I2 & I3).
+      split; [intros Hb; destruct (B2 Hb) as [Hc _]; contradiction|]. split; [exact I2|exact I3].
+  - intros H. injection H as _ <- <-. split; [auto|]. split; [intros Hc; contradiction|intros _; exact Herr].
+Qed.
+
+Lemma close_bad (st : es_state) (e : gerr) (st' : es_state) :
+  es_close c s st = CloseRet e st' -> (e <> None -> bad st') /\ (bad st -> e <> None /\ bad st').
+Proof.
+  unfold es_close, es_close_v2, es_close_v1_tail.
+  destruct (version_eqb (es_v st) v1).
+  - destruct (0 <? Z.of_nat (List.length (es_buf st)))%Z.
+    + destruct (es_block c s st false) as [w|e0 sa] eqn:Eb; [discriminate|].
+      destruct (block_bad _ _ _ _ Eb) as [B1 B2].
+      destruct e0 as [e0|].
+      * intros H. injection H as <- <-. split; [exact B1|exact B2].
+      * destruct (0 <? Z.of_nat (List.length (es_buf sa)))%Z; [discriminate|].
+        destruct (es_block c s sa true) as [w|e1 sb] eqn:Eb2; [discriminate|].
+        destruct (block_bad _ _ _ _ Eb2) as [C1 C2].
+        intros H. injection H as <- <-. split; [exact C1|].
+        intros Hb. destruct (B2 Hb) as [Hc _]. contradiction.
+    + destruct (0 <? Z.of_nat (List.length (es_buf st)))%Z; [discriminate|].
+      destruct (es_block c s st true) as [w|e1 sb] eqn:Eb2; [discriminate|].
+      destruct (block_bad _ _ _ _ Eb2) as [C1 C2].
+      intros H. injection H as <- <-. split; [exact C1|exact C2].
+  - destruct (version_eqb (es_v st) v2); [|discriminate].
+    destruct (es_block c s st true) as [w|e0 sa] eqn:Eb; [discriminate|].
+    destruct (block_bad _ _ _ _ Eb) as [B1 B2].
+    destruct e0 as [e0|].
+    + intros H. injection H as <- <-. split; [exact B1|exact B2].
+    + destruct (0 <? Z.of_nat (List.length (es_buf sa)))%Z; [discriminate|].
+      intros H. injection H as <- <-. split; [exact B1|exact B2].
+Qed.
+
+Lemma call_bad (st : es_state) (o : op) (e : gerr) (st' : es_state) : Inv st -> call s st o = (Ret e, st') ->
+  Inv st' /\ (bad st -> bad st') /\ (e <> None -> bad st') /\ (o = OpClose -> bad st -> e <> None).
+Proof.
+  intros Hi. destruct o as [p|]; cbn [call].
+  - unfold es_write. destruct (es_err st) as [e0|] eqn:Ee.
+    + intros H. injection H as <- <-. destruct Hi as [Hi|Hi]; [rewrite Ee in Hi; discriminate Hi|].
+      split; [right; exact Hi|]. split; [auto|]. split; [intros _; exact Hi|discriminate].
+    + destruct (es_drain c s 296 (set_buf st (es_buf st ++ p)) (Z.of_nat (List.length p))) as [w|n e1 sa] eqn:Ed; [discriminate|].
+      intros H. injection H as <- <-.
+      destruct (drain_bad 296 (set_buf st (es_buf st ++ p)) _ _ _ _ Ee Ed) as (D1 & D2 & D3).
+      split; [destruct e1 as [e1|]; [right; apply D2; discriminate|left; apply D3; reflexivity]|].
+      split; [exact D1|]. split; [exact D2|discriminate].
+  - destruct (es_close c s st) as [w| |e1 sa] eqn:Ec; [discriminate|discriminate|].
+    intros H. injection H as <- <-. destruct (close_bad _ _ _ Ec) as [C1 C2].
+    pose proof (es_close_keeps_err s st e1 sa Ec) as Hk.
+    split; [destruct Hi as [Hi|Hi]; [left; rewrite Hk; exact Hi|right; exact (proj2 (C2 Hi))]|].
+    split; [intros Hb; exact (proj2 (C2 Hb))|]. split; [exact C1|]. intros _ Hb. exact (proj1 (C2 Hb)).
+Qed.
+
+(* (TARGET) with a sticky step: after a call that returned an error, no later Close returns nil *)
+Theorem es_no_nil_close_after_error (st : es_state) (ops : list op) (outs : list outc) (st' : es_state) (i j : nat) e :
+  Inv st -> run (call s) st ops = (outs, st') ->
+  (i < j)%nat -> nth_error outs i = Some (Ret (Some e)) -> nth_error ops j = Some OpClose ->
+  nth_error outs j <> Some (Ret None).
+Proof.
+  intros Hi Hr. exact (run_no_nil_close_after_error _ (call s) Inv bad call_bad ops st outs st' Hi Hr i j e).
+Qed.
+
+Lemma init_inv (st : es_state) v sender rcpts ra rb rc (e : gerr) (st1 : es_state) ra' rb' rc' :
+  es_err st = None -> es_init c s st v sender rcpts ra rb rc = IRet e st1 ra' rb' rc' -> Inv st1.
+Proof.
+  intros He. unfold es_init, Inv.
+  destruct (negb (known_version v)); [intros H; injection H as _ <- _ _ _; left; exact He|].
+  destruct (check_rcv_err rcpts); [intros H; injection H as _ <- _ _ _; left; exact He|].
+  destruct (2147483647 <? Z.of_nat (List.length rcpts))%Z; [discriminate|].
+  destruct (shuffle rcpts ra) as [[rs ra1]|]; [|intros H; injection H as _ <- _ _ _; left; exact He].
+  destruct (read_full 32 rb) as [[eph rb1]|]; [|intros H; injection H as _ <- _ _ _; left; exact He].
+  destruct (read_full 32 rc) as [[pkey rc1]|]; [|intros H; injection H as _ <- _ _ _; left; exact He].
+  cbv zeta. match goal with |- context [s ?w ?p] => destruct (s w p) as [w' [e1|]] end; cbn [fst snd];
+    intros H; injection H as _ <- _ _ _; left; exact He.
+Qed.
+End Sticky.
+
+(* (TARGET) with a sticky step: if init; Write p1; ..; Write pn; Close were all made and Close returned nil, every call
+   returned nil *)
+Theorem es_close_nil_all_nil (broken : gval -> Prop) (s : step) (st0 : es_state) (v : version)
+        (sender : option bytes) (rcpts : list rcpt) (ra rb rc : rng) (pieces : list bytes) (outs : list outc) (st' : es_state) :
+  sticky_step broken s -> es_err st0 = None ->
+  session s st0 v sender rcpts ra rb rc (session_ops pieces) = (outs, st') ->
+  List.length outs = S (S (List.length pieces)) -> last outs (Halt EmptyString) = Ret None ->
+  all_nil outs.
+Proof.
+  intros Hst He0 Hs Hl Hlast.
+  revert Hs. unfold session.
+  destruct (es_init c s st0 v sender rcpts ra rb rc) as [w|e st1 ra' rb' rc'] eqn:Ei.
+  - intros H. injection H as <- <-. discriminate Hl.
+  - destruct e as [e|]; [intros H; injection H as <- <-; discriminate Hl|].
+    destruct (run (call s) st1 (session_ops pieces)) as [r sb] eqn:Er. intros H. injection H as <- <-.
+    cbn [List.length] in Hl. injection Hl as Hl.
+    assert (Hlast' : last r (Halt EmptyString) = Ret None) by (destruct r; [discriminate Hl|exact Hlast]).
+    constructor; [reflexivity|].
+    unfold session_ops in Er.
+    refine (run_last_close_nil _ (call s) (Inv broken) (bad broken) (call_bad s broken Hst) (map OpWrite pieces) st1 r sb _ Er _ Hlast').
+    + exact (init_inv s broken st0 _ _ _ _ _ _ _ _ _ _ _ He0 Ei).
+    + rewrite map_length. exact Hl.
+Qed.
+
+(* (TARGET) C14 AS WORDED, for a sticky honest step: if Write p1; ..; Write pn; Close were all made and Close
+   returned nil, then every call returned nil and the writer took the complete message *)
+Theorem es_close_nil_complete (written : gval -> bytes) (broken : gval -> Prop) (s : step) (w0 : gval) (v : version)
+        (sender : option bytes) (rcpts : list rcpt) (ra rb rc : rng) (pieces : list bytes) (outs : list outc) (st' : es_state) :
+  honest written s -> sticky_step broken s -> written w0 = [] ->
+  session s (fresh v w0) v sender rcpts ra rb rc (session_ops pieces) = (outs, st') ->
+  List.length outs = S (S (List.length pieces)) -> last outs (Halt EmptyString) = Ret None ->
+  all_nil outs /\
+  exists stm, session mem_enc (fresh v (VBytes [])) v sender rcpts ra rb rc (session_ops pieces) = (outs, stm) /\
+              es_enc stm = VBytes (written (es_enc st')).
+Proof.
+  intros Hh Hst Hw Hs Hl Hlast.
+  pose proof (es_close_nil_all_nil broken s (fresh v w0) v sender rcpts ra rb rc pieces outs st' Hst eq_refl Hs Hl Hlast) as Hn.
+  split; [exact Hn|]. exact (es_no_silent_loss_pieces written s w0 v sender rcpts ra rb rc pieces outs st' Hh Hw Hs Hn).
+Qed.
+
+
 End S.
 
 (* ---------- the statements on concrete writers (toy primitives of model/ToyCrypto.v; computed) ---------- *)
@@ -631,6 +1117,13 @@ Example ex_enc_logged :
   let r := ex_session (logged (flaky 1 3)) (instr (flaky_obj [] 0)) (session_ops [[x61; x62]; [x63]]) in
   fst r = [Ret None; Ret None; Ret None; Ret ex_io] /\ saw_error (es_enc (snd r)) = true.
 Proof. vm_compute. split; reflexivity. Qed.
+
+(* the same calls with go-codec's sticky encoder between the stream and the failing step: Close fails too *)
+Example ex_enc_close_after_failed_write_codec :
+  let big := (repeat x00 1048576 ++ [x61])%list in
+  fst (ex_session (codec (flaky 1 0)) (codec_obj (flaky_obj [] 0)) [OpWrite big; OpClose])
+  = [Ret None; Ret ex_io; Ret (Some ("ErrEncoderBroken"%string, []))].
+Proof. vm_compute. reflexivity. Qed.
 
 (* FINDING (Close after a failed Write).  A message of 1 MiB + 1 byte, written in one Write.  The writer refuses the
    first payload packet (it takes nothing and reports an error) and works again afterwards.  Write returns the
@@ -894,6 +1387,124 @@ Proof.
 Qed.
 
 
+(* ---------- full simulation: related steps with EQUAL errors give equal results at every call ---------- *)
+Section Bisim.
+Variables s1 s2 : step.
+Variable R : gval -> gval -> Prop.
+Hypothesis Hbis : step_bisim R s1 s2.
+
+Definition brel (r1 r2 : bres) : Prop :=
+  match r1, r2 with
+  | BStuck w1, BStuck w2 => w1 = w2
+  | BRet e1 a1, BRet e2 a2 => e1 = e2 /\ rel R a1 a2
+  | _, _ => False
+  end.
+Definition wrel (r1 r2 : wres) : Prop :=
+  match r1, r2 with
+  | WStuck w1, WStuck w2 => w1 = w2
+  | WRet n1 e1 a1, WRet n2 e2 a2 => n1 = n2 /\ e1 = e2 /\ rel R a1 a2
+  | _, _ => False
+  end.
+Definition crel (r1 r2 : cres) : Prop :=
+  match r1, r2 with
+  | CloseStuck w1, CloseStuck w2 => w1 = w2
+  | ClosePanic, ClosePanic => True
+  | CloseRet e1 a1, CloseRet e2 a2 => e1 = e2 /\ rel R a1 a2
+  | _, _ => False
+  end.
+
+Lemma block_from_bisim (st1 st2 : sas_state) (f : bool) (ch rest : bytes) :
+  rel R st1 st2 -> brel (sas_block_from c s1 st1 f ch rest) (sas_block_from c s2 st2 f ch rest).
+Proof.
+  intros [HR Heq]. destruct st1 as [v hh w1 sk buf n]. rewrite Heq. clear Heq.
+  generalize dependent (sas_enc st2). intros w2 HR. clear st2.
+  unfold sas_block_from, set_enc, set_buf, set_seq.
+  cbn [sas_v sas_hh sas_enc sas_sk sas_buf sas_seq] in *.
+  destruct (negb (read_ok v f 1048576 (Z.of_nat (List.length ch)) (Z.of_nat (List.length rest)))); [reflexivity|].
+  destruct (attached_sig_input c v hh ch n f) as [inp|]; [|reflexivity].
+  destruct (negb (chunk_ok v ch 0 n f)); [reflexivity|].
+  match goal with |- context [s1 w1 ?p] => destruct (Hbis w1 w2 p HR) as [H1 H2]; destruct (s1 w1 p) as [w1' e1]; destruct (s2 w2 p) as [w2' e2] end.
+  cbn [fst snd] in *. subst e2. destruct e1 as [e1|]; (split; [reflexivity|split; [exact H2|reflexivity]]).
+Qed.
+Lemma block_bisim (st1 st2 : sas_state) (f : bool) :
+  rel R st1 st2 -> brel (sas_block c s1 st1 f) (sas_block c s2 st2 f).
+Proof. intros Hr. unfold sas_block. rewrite (rel_buf R _ _ Hr). apply block_from_bisim. exact Hr. Qed.
+
+Lemma drain_bisim (fuel : nat) : forall (st1 st2 : sas_state) (ret : Z),
+  rel R st1 st2 -> wrel (sas_drain c s1 fuel st1 ret) (sas_drain c s2 fuel st2 ret).
+Proof.
+  induction fuel as [|fuel IH]; intros st1 st2 ret Hr; cbn [sas_drain]; [reflexivity|].
+  rewrite (rel_buf R _ _ Hr).
+  destruct (1048576 <? Z.of_nat (List.length (sas_buf st1)))%Z; [|split; [reflexivity|split; [reflexivity|exact Hr]]].
+  pose proof (block_bisim _ _ false Hr) as Hb.
+  destruct (sas_block c s1 st1 false) as [w|e sa]; destruct (sas_block c s2 st2 false) as [w'|e' sa2]; cbn [brel] in Hb; try contradiction.
+  - reflexivity.
+  - destruct Hb as [<- Hr2]. destruct e as [e|].
+    + split; [reflexivity|]. split; [reflexivity|exact Hr2].
+    + apply IH. exact Hr2.
+Qed.
+Lemma write_bisim (st1 st2 : sas_state) (p : bytes) :
+  rel R st1 st2 -> wrel (sas_write c s1 F st1 p) (sas_write c s2 F st2 p).
+Proof.
+  intros Hr. unfold sas_write. rewrite (rel_buf R _ _ Hr). apply drain_bisim. apply rel_set_buf. exact Hr.
+Qed.
+Lemma close_bisim (st1 st2 : sas_state) :
+  rel R st1 st2 -> crel (sas_close c s1 st1) (sas_close c s2 st2).
+Proof.
+  intros Hr. unfold sas_close, sas_close_v1, sas_close_v2.
+  assert (Hv : sas_v st2 = sas_v st1) by (destruct Hr as [_ ->]; reflexivity).
+  rewrite Hv, (rel_buf R _ _ Hr).
+  assert (Hfin : forall a1 a2, rel R a1 a2 ->
+            crel (match sas_block c s1 a1 true with BStuck _ => CloseStuck "call" | BRet e st3 => CloseRet e st3 end)
+                 (match sas_block c s2 a2 true with BStuck _ => CloseStuck "call" | BRet e st3 => CloseRet e st3 end)).
+  { intros a1 a2 Ha. pose proof (block_bisim _ _ true Ha) as Hb.
+    destruct (sas_block c s1 a1 true) as [w|e sa]; destruct (sas_block c s2 a2 true) as [w'|e' sa2]; cbn [brel] in Hb; try contradiction.
+    - reflexivity.
+    - exact Hb. }
+  destruct (version_eqb (sas_v st1) v1).
+  - destruct (0 <? Z.of_nat (List.length (sas_buf st1)))%Z.
+    + pose proof (block_bisim _ _ false Hr) as Hb.
+      destruct (sas_block c s1 st1 false) as [w|e sa]; destruct (sas_block c s2 st2 false) as [w'|e' sa2]; cbn [brel] in Hb; try contradiction.
+      * reflexivity.
+      * destruct Hb as [<- Hr2]. destruct e as [e|]; [split; [reflexivity|exact Hr2]|].
+        rewrite (rel_buf R _ _ Hr2). destruct (0 <? Z.of_nat (List.length (sas_buf sa)))%Z; [exact I|]. apply Hfin. exact Hr2.
+    + apply Hfin. exact Hr.
+  - destruct (version_eqb (sas_v st1) v2); [|exact I].
+    pose proof (block_bisim _ _ true Hr) as Hb.
+    destruct (sas_block c s1 st1 true) as [w|e sa]; destruct (sas_block c s2 st2 true) as [w'|e' sa2]; cbn [brel] in Hb; try contradiction.
+    + reflexivity.
+    + destruct Hb as [<- Hr2]. destruct e as [e|]; [split; [reflexivity|exact Hr2]|].
+      rewrite (rel_buf R _ _ Hr2). destruct (0 <? Z.of_nat (List.length (sas_buf sa)))%Z; [exact I|split; [reflexivity|exact Hr2]].
+Qed.
+End Bisim.
+
+Lemma call_bisim (s1 s2 : step) (R : gval -> gval -> Prop) : step_bisim R s1 s2 ->
+  forall st1 st2 o, rel R st1 st2 ->
+  fst (call s1 st1 o) = fst (call s2 st2 o) /\ rel R (snd (call s1 st1 o)) (snd (call s2 st2 o)).
+Proof.
+  intros Hbis st1 st2 o Hr. destruct o as [p|]; cbn [call].
+  - pose proof (write_bisim s1 s2 R Hbis _ _ p Hr) as Hw.
+    destruct (sas_write c s1 F st1 p) as [w|n e sa]; destruct (sas_write c s2 F st2 p) as [w'|n' e' sa2]; cbn [wrel] in Hw; try contradiction.
+    + subst w'. split; [reflexivity|exact Hr].
+    + destruct Hw as (_ & <- & Hr2). split; [reflexivity|exact Hr2].
+  - pose proof (close_bisim s1 s2 R Hbis _ _ Hr) as Hc.
+    destruct (sas_close c s1 st1) as [w| |e sa]; destruct (sas_close c s2 st2) as [w'| |e' sa2]; cbn [crel] in Hc; try contradiction.
+    + subst w'. split; [reflexivity|exact Hr].
+    + split; [reflexivity|exact Hr].
+    + destruct Hc as [<- Hr2]. split; [reflexivity|exact Hr2].
+Qed.
+
+(* (TARGET) the instrumentation is transparent *)
+Theorem sas_logged_transparent (s : step) (st : sas_state) (o : gval) (b : bool) (ops : list op) :
+  sas_enc st = VList [o; VBool b] ->
+  fst (run (call (logged s)) st ops) = fst (run (call s) (set_enc st o) ops) /\
+  rel under_flag (snd (run (call (logged s)) st ops)) (snd (run (call s) (set_enc st o) ops)).
+Proof.
+  intros He.
+  apply (run_bisim _ _ (call (logged s)) (call s) (rel under_flag) (call_bisim (logged s) s under_flag (logged_bisim s))).
+  split; [exists b; exact He|reflexivity].
+Qed.
+
 (* ---------- after an error: signAttachedStream has NO err field ---------- *)
 (* (TARGET) NOT STICKY: there is no err field; a block whose packet the step refuses is gone from the buffer and seqno is
    not advanced, and the next Write or Close runs on the object as this leaves it ([call]/[run]) *)
@@ -910,6 +1521,137 @@ Proof.
   - intros H _. injection H as _ <-. split; reflexivity.
   - intros H Hne. injection H as <- _. contradiction.
 Qed.
+
+(* ---------- with a STICKY step (go-codec's Encoder), Close cannot succeed after an error ---------- *)
+Section Sticky.
+Variable s : step.
+Variable broken : gval -> Prop.
+Hypothesis Hst : sticky_step broken s.
+
+Definition bad (st : sas_state) : Prop := broken (sas_enc st).
+
+Lemma block_from_bad (st : sas_state) (f : bool) (ch rest : bytes) (e : gerr) (st' : sas_state) :
+  sas_block_from c s st f ch rest = BRet e st' ->
+  (e <> None -> bad st') /\ (bad st -> e <> None /\ bad st').
+Proof.
+  destruct Hst as [Hs1 Hs2].
+  destruct st as [v hh w sk buf n]. unfold bad, sas_block_from, set_enc, set_buf, set_seq.
+  cbn [sas_v sas_hh sas_enc sas_sk sas_buf sas_seq].
+  destruct (negb (read_ok v f 1048576 (Z.of_nat (List.length ch)) (Z.of_nat (List.length rest)))); [discriminate|].
+  destruct (attached_sig_input c v hh ch n f) as [inp|]; [|discriminate].
+  destruct (negb (chunk_ok v ch 0 n f)); [discriminate|].
+  match goal with |- context [s w ?p] => pose proof (Hs1 w p) as H1; pose proof (Hs2 w p) as H2; destruct (s w p) as [w' [e1|]] end;
+    cbn [fst snd] in *; intros H; injection H as <- <-; cbn [sas_enc].
+  - assert (Hb : broken w') by (apply H1; discriminate).
+    split; [intros _; exact Hb|]. intros _. split; [discriminate|exact Hb].
+  - split; [intros Hc; contradiction|]. intros Hb. destruct (H2 Hb) as [Hc _]. contradiction.
+Qed.
+Lemma block_bad (st : sas_state) (f : bool) (e : gerr) (st' : sas_state) :
+  sas_block c s st f = BRet e st' -> (e <> None -> bad st') /\ (bad st -> e <> None /\ bad st').
+Proof. unfold sas_block. apply block_from_bad. Qed.
+
+Lemma drain_bad (fuel : nat) : forall (st : sas_state) (ret n : Z) (e : gerr) (st' : sas_state),
+  sas_drain c s fuel st ret = WRet n e st' -> (bad st -> bad st') /\ (e <> None -> bad st').
+Proof.
+  induction fuel as [|fuel IH]; intros st ret n e st'; cbn [sas_drain]; [discriminate|].
+  destruct (1048576 <? Z.of_nat (List.length (sas_buf st)))%Z.
+  - destruct (sas_block c s st false) as [w|e0 sa] eqn:Eb; [discriminate|].
+    destruct (block_bad _ _ _ _ Eb) as [B1 B2].
+    destruct e0 as [e0|].
+    + intros H. injection H as _ <- <-. assert (Hb : bad sa) by (apply B1; discriminate).
+      split; intros _; exact Hb.
+    + intros H. destruct (IH _ _ _ _ _ H) as (I1 & I2).
+      split; [intros Hb; destruct (B2 Hb) as [Hc _]; contradiction|exact I2].
+  - intros H. injection H as _ <- <-. split; [auto|intros Hc; contradiction].
+Qed.
+
+Lemma close_bad (st : sas_state) (e : gerr) (st' : sas_state) :
+  sas_close c s st = CloseRet e st' -> (e <> None -> bad st') /\ (bad st -> e <> None /\ bad st').
+Proof.
+  unfold sas_close, sas_close_v1, sas_close_v2.
+  destruct (version_eqb (sas_v st) v1).
+  - destruct (0 <? Z.of_nat (List.length (sas_buf st)))%Z.
+    + destruct (sas_block c s st false) as [w|e0 sa] eqn:Eb; [discriminate|].
+      destruct (block_bad _ _ _ _ Eb) as [B1 B2].
+      destruct e0 as [e0|].
+      * intros H. injection H as <- <-. split; [exact B1|exact B2].
+      * destruct (0 <? Z.of_nat (List.length (sas_buf sa)))%Z; [discriminate|].
+        destruct (sas_block c s sa true) as [w|e1 sb] eqn:Eb2; [discriminate|].
+        destruct (block_bad _ _ _ _ Eb2) as [C1 C2].
+        intros H. injection H as <- <-. split; [exact C1|].
+        intros Hb. destruct (B2 Hb) as [Hc _]. contradiction.
+    + destruct (sas_block c s st true) as [w|e1 sb] eqn:Eb2; [discriminate|].
+      destruct (block_bad _ _ _ _ Eb2) as [C1 C2].
+      intros H. injection H as <- <-. split; [exact C1|exact C2].
+  - destruct (version_eqb (sas_v st) v2); [|discriminate].
+    destruct (sas_block c s st true) as [w|e0 sa] eqn:Eb; [discriminate|].
+    destruct (block_bad _ _ _ _ Eb) as [B1 B2].
+    destruct e0 as [e0|].
+    + intros H. injection H as <- <-. split; [exact B1|exact B2].
+    + destruct (0 <? Z.of_nat (List.length (sas_buf sa)))%Z; [discriminate|].
+      intros H. injection H as <- <-. split; [exact B1|exact B2].
+Qed.
+
+Lemma call_bad (st : sas_state) (o : op) (e : gerr) (st' : sas_state) : True -> call s st o = (Ret e, st') ->
+  True /\ (bad st -> bad st') /\ (e <> None -> bad st') /\ (o = OpClose -> bad st -> e <> None).
+Proof.
+  intros _. destruct o as [p|]; cbn [call].
+  - unfold sas_write.
+    destruct (sas_drain c s F (set_buf st (sas_buf st ++ p)) (Z.of_nat (List.length p))) as [w|n e1 sa] eqn:Ed; [discriminate|].
+    intros H. injection H as <- <-. destruct (drain_bad _ _ _ _ _ _ Ed) as (D1 & D2).
+    split; [exact I|]. split; [exact D1|]. split; [exact D2|discriminate].
+  - destruct (sas_close c s st) as [w| |e1 sa] eqn:Ec; [discriminate|discriminate|].
+    intros H. injection H as <- <-. destruct (close_bad _ _ _ Ec) as [C1 C2].
+    split; [exact I|]. split; [intros Hb; exact (proj2 (C2 Hb))|]. split; [exact C1|]. intros _ Hb. exact (proj1 (C2 Hb)).
+Qed.
+
+(* (TARGET) with a sticky step: after a call that returned an error, no later Close returns nil *)
+Theorem sas_no_nil_close_after_error (st : sas_state) (ops : list op) (outs : list outc) (st' : sas_state) (i j : nat) e :
+  run (call s) st ops = (outs, st') ->
+  (i < j)%nat -> nth_error outs i = Some (Ret (Some e)) -> nth_error ops j = Some OpClose ->
+  nth_error outs j <> Some (Ret None).
+Proof.
+  intros Hr. exact (run_no_nil_close_after_error _ (call s) (fun _ => True) bad call_bad ops st outs st' I Hr i j e).
+Qed.
+End Sticky.
+
+(* (TARGET) with a sticky step: if the constructor, Write p1; ..; Write pn and Close were all made and Close returned nil,
+   every call returned nil *)
+Theorem sas_close_nil_all_nil (broken : gval -> Prop) (s : step) (w0 : gval) (v : version)
+        (signer : option bytes) (r : rng) (pieces : list bytes) (outs : list outc) (st' : option sas_state) :
+  sticky_step broken s ->
+  session s v w0 signer r (session_ops pieces) = (outs, st') ->
+  List.length outs = S (S (List.length pieces)) -> last outs (Halt EmptyString) = Ret None ->
+  all_nil outs.
+Proof.
+  intros Hst Hs Hl Hlast. revert Hs. unfold session.
+  destruct (new_state s v w0 signer r) as [o so].
+  destruct o as [[e|]|w]; try (intros H; destruct so; injection H as <- <-; discriminate Hl).
+  destruct so as [st0|]; [|intros H; injection H as <- <-; discriminate Hl].
+  destruct (run (call s) st0 (session_ops pieces)) as [rs sb] eqn:Er. intros H. injection H as <- <-.
+  cbn [List.length] in Hl. injection Hl as Hl.
+  assert (Hlast' : last rs (Halt EmptyString) = Ret None) by (destruct rs; [discriminate Hl|exact Hlast]).
+  constructor; [reflexivity|].
+  unfold session_ops in Er.
+  refine (run_last_close_nil _ (call s) (fun _ => True) (bad broken) (call_bad s broken Hst) (map OpWrite pieces) st0 rs sb I Er _ Hlast').
+  rewrite map_length. exact Hl.
+Qed.
+
+(* (TARGET) C14 AS WORDED, for a sticky honest step *)
+Theorem sas_close_nil_complete (written : gval -> bytes) (broken : gval -> Prop) (s : step) (w0 : gval) (v : version)
+        (signer : option bytes) (r : rng) (pieces : list bytes) (outs : list outc) (st' : option sas_state) :
+  honest written s -> sticky_step broken s -> written w0 = [] ->
+  session s v w0 signer r (session_ops pieces) = (outs, st') ->
+  List.length outs = S (S (List.length pieces)) -> last outs (Halt EmptyString) = Ret None ->
+  all_nil outs /\
+  exists st1 stm, st' = Some st1 /\ session mem_enc v (VBytes []) signer r (session_ops pieces) = (outs, Some stm) /\
+                  sas_enc stm = VBytes (written (sas_enc st1)).
+Proof.
+  intros Hh Hst Hw Hs Hl Hlast.
+  pose proof (sas_close_nil_all_nil broken s w0 v signer r pieces outs st' Hst Hs Hl Hlast) as Hn.
+  split; [exact Hn|]. exact (sas_no_silent_loss_pieces written s w0 v signer r pieces outs st' Hh Hw Hs Hn).
+Qed.
+
 End S.
 
 (* ---------- the statements on concrete writers (toy primitives; computed) ---------- *)
@@ -1060,15 +1802,46 @@ Qed.
 Theorem sds_close_reports (s : step) (st : sds_state) :
   fst (call s st OpClose) = Ret (snd (s (sds_enc st) (sds_sig_packet st))).
 Proof. reflexivity. Qed.
+(* (TARGET) *)
 Theorem sds_write_no_step (s : step) (st : sds_state) (p : bytes) :
   fst (call s st (OpWrite p)) = Ret None /\ sds_enc (snd (call s st (OpWrite p))) = sds_enc st.
 Proof. split; reflexivity. Qed.
+(* (TARGET) *)
 Theorem sds_new_reports (s : step) (v : version) (o : gval) (signer : option bytes) (r : rng) (st : sds_state) :
   new_state (logged s) v (instr o) signer r = (Ret None, Some st) -> saw_error (sds_enc st) = false.
 Proof.
   intros Hn.
   destruct (new_sim (logged s) s clean_of (logged_sim s) v (instr o) o signer r st eq_refl Hn) as (st2 & _ & [Hr _]).
   rewrite Hr. reflexivity.
+Qed.
+
+(* (TARGET) C14 AS WORDED (no hypothesis on the step: Write makes no step, Close makes one): if the constructor, the
+   Writes and Close were all made and Close returned nil, every call returned nil *)
+Lemma run_writes_close (s : step) (pieces : list bytes) : forall st rs sb,
+  run (call s) st (map OpWrite pieces ++ [OpClose]) = (rs, sb) -> last rs (Halt EmptyString) = Ret None -> all_nil rs.
+Proof.
+  induction pieces as [|p t IH]; intros st rs sb; cbn [map app run call].
+  - destruct (s (sds_enc st) (sds_sig_packet st)) as [o e]. cbn [fst snd]. intros H Hl. injection H as <- <-.
+    cbn [last] in Hl. rewrite Hl. constructor; [reflexivity|constructor].
+  - destruct (run (call s) _ (map OpWrite t ++ [OpClose])) as [r sb'] eqn:Er. intros H Hl. injection H as <- <-.
+    assert (Hr : r <> []).
+    { clear - Er. destruct t; cbn [map app run call] in Er.
+      - destruct (s _ _). cbn [fst snd] in Er. injection Er as <- _. discriminate.
+      - destruct (run _ _ _). injection Er as <- _. discriminate. }
+    constructor; [reflexivity|]. apply (IH _ _ _ Er). destruct r; [contradiction|exact Hl].
+Qed.
+(* (TARGET) *)
+Theorem sds_close_nil_all_nil (s : step) (v : version) (w0 : gval) (signer : option bytes) (r : rng) (pieces : list bytes)
+        (outs : list outc) (st' : option sds_state) :
+  session s v w0 signer r (session_ops pieces) = (outs, st') ->
+  List.length outs = S (S (List.length pieces)) -> last outs (Halt EmptyString) = Ret None -> all_nil outs.
+Proof.
+  unfold session. destruct (new_state s v w0 signer r) as [o so].
+  destruct o as [[e|]|w]; try (intros H Hl; destruct so; injection H as <- <-; discriminate Hl).
+  destruct so as [st0|]; [|intros H Hl; injection H as <- <-; discriminate Hl].
+  destruct (run (call s) st0 (session_ops pieces)) as [rs sb] eqn:Er. intros H Hl Hlast. injection H as <- <-.
+  constructor; [reflexivity|]. apply (run_writes_close s pieces st0 rs sb Er).
+  destruct rs; [discriminate Hl|exact Hlast].
 Qed.
 End S.
 
@@ -1309,6 +2082,111 @@ Proof.
   rewrite (rel_clean_flag _ _ Hr) in Hs. discriminate Hs.
 Qed.
 
+(* ---------- full simulation: related steps with EQUAL errors give equal results at every call ---------- *)
+Section Bisim.
+Variables s1 s2 : step.
+Variable R : gval -> gval -> Prop.
+Hypothesis Hbis : step_bisim R s1 s2.
+
+Definition brel (r1 r2 : bres) : Prop :=
+  match r1, r2 with
+  | BStuck w1, BStuck w2 => w1 = w2
+  | BPanic, BPanic => True
+  | BRet e1 a1, BRet e2 a2 => e1 = e2 /\ rel R a1 a2
+  | _, _ => False
+  end.
+Definition wrel (r1 r2 : wres) : Prop :=
+  match r1, r2 with
+  | WStuck w1, WStuck w2 => w1 = w2
+  | WRet n1 e1 a1, WRet n2 e2 a2 => n1 = n2 /\ e1 = e2 /\ rel R a1 a2
+  | _, _ => False
+  end.
+Definition crel (r1 r2 : cres) : Prop :=
+  match r1, r2 with
+  | CloseStuck w1, CloseStuck w2 => w1 = w2
+  | ClosePanic, ClosePanic => True
+  | CloseRet e1 a1, CloseRet e2 a2 => e1 = e2 /\ rel R a1 a2
+  | _, _ => False
+  end.
+
+Lemma block_from_bisim (st1 st2 : sss_state) (f : bool) (pt rest : bytes) :
+  rel R st1 st2 -> brel (sss_block_from c s1 st1 f pt rest) (sss_block_from c s2 st2 f pt rest).
+Proof.
+  intros [HR Heq]. destruct st1 as [v w1 k sg buf hh n err]. rewrite Heq. clear Heq.
+  generalize dependent (ss_enc st2). intros w2 HR. clear st2.
+  unfold sss_block_from, set_enc, set_buf, set_n.
+  cbn [ss_v ss_enc ss_key ss_signer ss_buf ss_hh ss_n ss_err] in *.
+  destruct (f && negb (Z.of_nat (List.length rest) =? 0)%Z); [exact I|].
+  destruct (negb (block_number_ok n)); [split; [reflexivity|split; [exact HR|reflexivity]]|].
+  destruct (negb (enc_chunk_ok v (sc_chunk_ct c sg k hh n pt f) 16 n f)); [reflexivity|].
+  match goal with |- context [s1 w1 ?p] => destruct (Hbis w1 w2 p HR) as [H1 H2]; destruct (s1 w1 p) as [w1' e1]; destruct (s2 w2 p) as [w2' e2] end.
+  cbn [fst snd] in *. subst e2. destruct e1 as [e1|]; (split; [reflexivity|split; [exact H2|reflexivity]]).
+Qed.
+Lemma block_bisim (st1 st2 : sss_state) (f : bool) :
+  rel R st1 st2 -> brel (sss_block c s1 st1 f) (sss_block c s2 st2 f).
+Proof. intros Hr. unfold sss_block. rewrite (rel_buf R _ _ Hr). apply block_from_bisim. exact Hr. Qed.
+
+Lemma drain_bisim (fuel : nat) : forall (st1 st2 : sss_state) (ret : Z),
+  rel R st1 st2 -> wrel (sss_drain c s1 fuel st1 ret) (sss_drain c s2 fuel st2 ret).
+Proof.
+  induction fuel as [|fuel IH]; intros st1 st2 ret Hr; cbn [sss_drain]; [reflexivity|].
+  rewrite (rel_buf R _ _ Hr).
+  destruct (1048576 <? Z.of_nat (List.length (ss_buf st1)))%Z; [|split; [reflexivity|split; [reflexivity|exact Hr]]].
+  pose proof (block_bisim _ _ false Hr) as Hb.
+  destruct (sss_block c s1 st1 false) as [w| |e sa]; destruct (sss_block c s2 st2 false) as [w'| |e' sa2]; cbn [brel] in Hb; try contradiction.
+  - reflexivity.
+  - reflexivity.
+  - destruct Hb as [<- Hr2]. destruct e as [e|].
+    + split; [reflexivity|]. split; [reflexivity|]. apply rel_set_err. exact Hr2.
+    + apply IH. apply rel_set_err. exact Hr2.
+Qed.
+Lemma write_bisim (st1 st2 : sss_state) (p : bytes) :
+  rel R st1 st2 -> wrel (sss_write c s1 st1 p) (sss_write c s2 st2 p).
+Proof.
+  intros Hr. unfold sss_write, sss_write_at.
+  assert (He : ss_err st2 = ss_err st1) by (destruct Hr as [_ ->]; reflexivity).
+  rewrite He, (rel_buf R _ _ Hr). destruct (ss_err st1); [split; [reflexivity|split; [reflexivity|exact Hr]]|].
+  apply drain_bisim. apply rel_set_buf. exact Hr.
+Qed.
+Lemma close_bisim (st1 st2 : sss_state) :
+  rel R st1 st2 -> crel (sss_close c s1 st1) (sss_close c s2 st2).
+Proof.
+  intros Hr. unfold sss_close.
+  pose proof (block_bisim _ _ true Hr) as Hb.
+  destruct (sss_block c s1 st1 true) as [w| |e sa]; destruct (sss_block c s2 st2 true) as [w'| |e' sa2]; cbn [brel] in Hb; try contradiction.
+  - reflexivity.
+  - reflexivity.
+  - destruct Hb as [<- Hr2]. destruct e as [e|]; [split; [reflexivity|exact Hr2]|].
+    rewrite (rel_buf R _ _ Hr2). destruct (0 <? Z.of_nat (List.length (ss_buf sa)))%Z; [exact I|split; [reflexivity|exact Hr2]].
+Qed.
+
+Lemma call_bisim (st1 st2 : sss_state) (o : op) : rel R st1 st2 ->
+  fst (call s1 st1 o) = fst (call s2 st2 o) /\ rel R (snd (call s1 st1 o)) (snd (call s2 st2 o)).
+Proof.
+  intros Hr. destruct o as [p|]; cbn [call].
+  - pose proof (write_bisim _ _ p Hr) as Hw.
+    destruct (sss_write c s1 st1 p) as [w|n e sa]; destruct (sss_write c s2 st2 p) as [w'|n' e' sa2]; cbn [wrel] in Hw; try contradiction.
+    + subst w'. split; [reflexivity|exact Hr].
+    + destruct Hw as (_ & <- & Hr2). split; [reflexivity|exact Hr2].
+  - pose proof (close_bisim _ _ Hr) as Hc.
+    destruct (sss_close c s1 st1) as [w| |e sa]; destruct (sss_close c s2 st2) as [w'| |e' sa2]; cbn [crel] in Hc; try contradiction.
+    + subst w'. split; [reflexivity|exact Hr].
+    + split; [reflexivity|exact Hr].
+    + destruct Hc as [<- Hr2]. split; [reflexivity|exact Hr2].
+Qed.
+End Bisim.
+
+(* (TARGET) the instrumentation is transparent *)
+Theorem sss_logged_transparent (s : step) (st : sss_state) (o : gval) (b : bool) (ops : list op) :
+  ss_enc st = VList [o; VBool b] ->
+  fst (run (call (logged s)) st ops) = fst (run (call s) (set_enc st o) ops) /\
+  rel under_flag (snd (run (call (logged s)) st ops)) (snd (run (call s) (set_enc st o) ops)).
+Proof.
+  intros He.
+  apply (run_bisim _ _ (call (logged s)) (call s) (rel under_flag) (call_bisim (logged s) s under_flag (logged_bisim s))).
+  split; [exists b; exact He|reflexivity].
+Qed.
+
 (* ---------- the sticky error of Write; Close does not look at it ---------- *)
 (* (TARGET) a block whose packet the step refuses (or that overflows the counter) is gone from the buffer, and
    numBlocks - the nonce - is not advanced *)
@@ -1412,6 +2290,147 @@ Proof.
   split; [exact (proj1 (sss_sticky s e ops st1 outs st' He Hr))|].
   intros q. apply sss_write_sticky. exact He.
 Qed.
+
+(* ---------- with a STICKY step (go-codec's Encoder), Close cannot succeed after an error ---------- *)
+Section Sticky.
+Variable s : step.
+Variable broken : gval -> Prop.
+Hypothesis Hst : sticky_step broken s.
+
+Definition bad (st : sss_state) : Prop := broken (ss_enc st) \/ block_number_ok (ss_n st) = false.
+Definition Inv (st : sss_state) : Prop := ss_err st = None \/ bad st.
+
+Lemma block_from_bad (st : sss_state) (f : bool) (pt rest : bytes) (e : gerr) (st' : sss_state) :
+  sss_block_from c s st f pt rest = BRet e st' ->
+  (e <> None -> bad st') /\ (bad st -> e <> None /\ bad st').
+Proof.
+  destruct Hst as [Hs1 Hs2].
+  destruct st as [v w k sg buf hh n err]. unfold bad, sss_block_from, set_enc, set_buf, set_n.
+  cbn [ss_v ss_enc ss_key ss_signer ss_buf ss_hh ss_n ss_err].
+  destruct (f && negb (Z.of_nat (List.length rest) =? 0)%Z); [discriminate|].
+  destruct (block_number_ok n) eqn:Hn; cbn [negb].
+  2:{ intros H. injection H as <- <-. cbn [ss_enc ss_n]. split; [intros _; right; exact Hn|].
+      intros _. split; [discriminate|right; exact Hn]. }
+  destruct (negb (enc_chunk_ok v (sc_chunk_ct c sg k hh n pt f) 16 n f)); [discriminate|].
+  match goal with |- context [s w ?p] => pose proof (Hs1 w p) as H1; pose proof (Hs2 w p) as H2; destruct (s w p) as [w' [e1|]] end;
+    cbn [fst snd] in *; intros H; injection H as <- <-; cbn [ss_enc ss_n].
+  - assert (Hb : broken w') by (apply H1; discriminate).
+    split; [intros _; left; exact Hb|]. intros _. split; [discriminate|left; exact Hb].
+  - split; [intros Hc; contradiction|]. intros [Hb|Hb]; [|discriminate Hb].
+    destruct (H2 Hb) as [Hc _]. contradiction.
+Qed.
+Lemma block_bad (st : sss_state) (f : bool) (e : gerr) (st' : sss_state) :
+  sss_block c s st f = BRet e st' -> (e <> None -> bad st') /\ (bad st -> e <> None /\ bad st').
+Proof. unfold sss_block. apply block_from_bad. Qed.
+
+Lemma drain_bad (fuel : nat) : forall (st : sss_state) (ret n : Z) (e : gerr) (st' : sss_state),
+  ss_err st = None -> sss_drain c s fuel st ret = WRet n e st' ->
+  (bad st -> bad st') /\ (e <> None -> bad st') /\ (e = None -> ss_err st' = None).
+Proof.
+  induction fuel as [|fuel IH]; intros st ret n e st' Herr; cbn [sss_drain]; [discriminate|].
+  destruct (1048576 <? Z.of_nat (List.length (ss_buf st)))%Z.
+  - destruct (sss_block c s st false) as [w| |e0 sa] eqn:Eb; [discriminate|discriminate|].
+    destruct (block_bad _ _ _ _ Eb) as [B1 B2].
+    destruct e0 as [e0|].
+    + intros H. injection H as _ <- <-. assert (Hb : bad sa) by (apply B1; discriminate).
+      split; [intros _; exact Hb|]. split; [intros _; exact Hb|discriminate].
+    + intros H. destruct (IH (set_err sa None) _ _ _ _ eq_refl H) as (I1 & I2 & I3).
+      split; [intros Hb; destruct (B2 Hb) as [Hc _]; contradiction|]. split; [exact I2|exact I3].
+  - intros H. injection H as _ <- <-. split; [auto|]. split; [intros Hc; contradiction|intros _; exact Herr].
+Qed.
+
+Lemma close_bad (st : sss_state) (e : gerr) (st' : sss_state) :
+  sss_close c s st = CloseRet e st' -> (e <> None -> bad st') /\ (bad st -> e <> None /\ bad st').
+Proof.
+  unfold sss_close.
+  destruct (sss_block c s st true) as [w| |e0 sa] eqn:Eb; [discriminate|discriminate|].
+  destruct (block_bad _ _ _ _ Eb) as [B1 B2].
+  destruct e0 as [e0|].
+  - intros H. injection H as <- <-. split; [exact B1|exact B2].
+  - destruct (0 <? Z.of_nat (List.length (ss_buf sa)))%Z; [discriminate|].
+    intros H. injection H as <- <-. split; [exact B1|exact B2].
+Qed.
+
+Lemma call_bad (st : sss_state) (o : op) (e : gerr) (st' : sss_state) : Inv st -> call s st o = (Ret e, st') ->
+  Inv st' /\ (bad st -> bad st') /\ (e <> None -> bad st') /\ (o = OpClose -> bad st -> e <> None).
+Proof.
+  intros Hi. destruct o as [p|]; cbn [call].
+  - unfold sss_write, sss_write_at. destruct (ss_err st) as [e0|] eqn:Ee.
+    + intros H. injection H as <- <-. destruct Hi as [Hi|Hi]; [rewrite Ee in Hi; discriminate Hi|].
+      split; [right; exact Hi|]. split; [auto|]. split; [intros _; exact Hi|discriminate].
+    + destruct (sss_drain c s 296 (set_buf st (ss_buf st ++ p)) (Z.of_nat (List.length p))) as [w|n e1 sa] eqn:Ed; [discriminate|].
+      intros H. injection H as <- <-.
+      destruct (drain_bad 296 (set_buf st (ss_buf st ++ p)) _ _ _ _ Ee Ed) as (D1 & D2 & D3).
+      split; [destruct e1 as [e1|]; [right; apply D2; discriminate|left; apply D3; reflexivity]|].
+      split; [exact D1|]. split; [exact D2|discriminate].
+  - destruct (sss_close c s st) as [w| |e1 sa] eqn:Ec; [discriminate|discriminate|].
+    intros H. injection H as <- <-. destruct (close_bad _ _ _ Ec) as [C1 C2].
+    pose proof (sss_close_keeps_err s st e1 sa Ec) as Hk.
+    split; [destruct Hi as [Hi|Hi]; [left; rewrite Hk; exact Hi|right; exact (proj2 (C2 Hi))]|].
+    split; [intros Hb; exact (proj2 (C2 Hb))|]. split; [exact C1|]. intros _ Hb. exact (proj1 (C2 Hb)).
+Qed.
+
+(* (TARGET) with a sticky step: after a call that returned an error, no later Close returns nil *)
+Theorem sss_no_nil_close_after_error (st : sss_state) (ops : list op) (outs : list outc) (st' : sss_state) (i j : nat) e :
+  Inv st -> run (call s) st ops = (outs, st') ->
+  (i < j)%nat -> nth_error outs i = Some (Ret (Some e)) -> nth_error ops j = Some OpClose ->
+  nth_error outs j <> Some (Ret None).
+Proof.
+  intros Hi Hr. exact (run_no_nil_close_after_error _ (call s) Inv bad call_bad ops st outs st' Hi Hr i j e).
+Qed.
+
+Lemma init_inv (st : sss_state) boxes syms ra rk rb (e : gerr) (st1 : sss_state) ra' rk' rb' :
+  ss_err st = None -> sss_init c s st boxes syms ra rk rb = IRet e st1 ra' rk' rb' -> Inv st1.
+Proof.
+  intros He. unfold sss_init, Inv.
+  destruct (sc_check_receivers boxes syms) as [u|e0]; [|intros H; injection H as _ <- _ _ _; left; exact He].
+  destruct (shuffle (all_rcpts boxes syms) ra) as [[rs ra1]|]; [|intros H; injection H as _ <- _ _ _; left; exact He].
+  destruct (read_full 32 rb) as [[eph rb1]|]; [|intros H; injection H as _ <- _ _ _; left; exact He].
+  destruct (read_full 32 rk) as [[key rk1]|]; [|intros H; injection H as _ <- _ _ _; left; exact He].
+  destruct (negb (Nat.eqb (List.length (sc_sender_pub_go c (ss_signer st))) 32)); [discriminate|].
+  cbv zeta. intros H. injection H as _ <- _ _ _. left. exact He.
+Qed.
+End Sticky.
+
+(* (TARGET) with a sticky step: if init; Write p1; ..; Write pn; Close were all made and Close returned nil, every call
+   returned nil *)
+Theorem sss_close_nil_all_nil (broken : gval -> Prop) (s : step) (st0 : sss_state)
+        (boxes : list bytes) (syms : list (bytes * bytes)) (ra rk rb : bytes) (pieces : list bytes) (outs : list outc) (st' : sss_state) :
+  sticky_step broken s -> ss_err st0 = None ->
+  session s st0 boxes syms ra rk rb (session_ops pieces) = (outs, st') ->
+  List.length outs = S (S (List.length pieces)) -> last outs (Halt EmptyString) = Ret None ->
+  all_nil outs.
+Proof.
+  intros Hst He0 Hs Hl Hlast. revert Hs. unfold session.
+  destruct (sss_init c s st0 boxes syms ra rk rb) as [|e st1 ra' rk' rb'] eqn:Ei.
+  - intros H. injection H as <- <-. discriminate Hl.
+  - destruct e as [e|]; [intros H; injection H as <- <-; discriminate Hl|].
+    destruct (run (call s) st1 (session_ops pieces)) as [r sb] eqn:Er. intros H. injection H as <- <-.
+    cbn [List.length] in Hl. injection Hl as Hl.
+    assert (Hlast' : last r (Halt EmptyString) = Ret None) by (destruct r; [discriminate Hl|exact Hlast]).
+    constructor; [reflexivity|].
+    unfold session_ops in Er.
+    refine (run_last_close_nil _ (call s) (Inv broken) (bad broken) (call_bad s broken Hst) (map OpWrite pieces) st1 r sb _ Er _ Hlast').
+    + exact (init_inv s broken st0 _ _ _ _ _ _ _ _ _ _ He0 Ei).
+    + rewrite map_length. exact Hl.
+Qed.
+
+(* (TARGET) C14 AS WORDED, for a sticky honest step: if Write p1; ..; Write pn; Close were all made and Close
+   returned nil, then every call returned nil and the writer took the complete message *)
+Theorem sss_close_nil_complete (written : gval -> bytes) (broken : gval -> Prop) (s : step) (w0 : gval) (signer : option bytes)
+        (boxes : list bytes) (syms : list (bytes * bytes)) (ra rk rb : bytes) (pieces : list bytes) (outs : list outc) (st' : sss_state) :
+  honest written s -> sticky_step broken s -> written w0 = [] ->
+  session s (fresh w0 signer) boxes syms ra rk rb (session_ops pieces) = (outs, st') ->
+  List.length outs = S (S (List.length pieces)) -> last outs (Halt EmptyString) = Ret None ->
+  all_nil outs /\
+  exists stm, session mem_enc (fresh (VBytes []) signer) boxes syms ra rk rb (session_ops pieces) = (outs, stm) /\
+              ss_enc stm = VBytes (written (ss_enc st')).
+Proof.
+  intros Hh Hst Hw Hs Hl Hlast.
+  pose proof (sss_close_nil_all_nil broken s (fresh w0 signer) boxes syms ra rk rb pieces outs st' Hst eq_refl Hs Hl Hlast) as Hn.
+  split; [exact Hn|]. exact (sss_no_silent_loss_pieces written s w0 signer boxes syms ra rk rb pieces outs st' Hh Hw Hs Hn).
+Qed.
+
 End S.
 
 (* ---------- the statements on concrete writers (toy primitives; computed) ---------- *)
@@ -1455,7 +2474,7 @@ End Sc.
    concatenation of the log; that reading is exact when no call failed, which is what the theorems establish
    before using it. *)
 Module Bx.
-Import GoAstProofs5b.
+Import GoAstProofs5b GoAstProofs5d.
 
 Definition werr (e : option String.string) : gerr := match e with Some x => Some (x, []) | None => None end.
 Definition written_log (w : wr) : bytes := List.concat (w_log w).
@@ -1636,6 +2655,7 @@ Proof.
   { destruct c as [p|]; cbn [call]; unfold gw_write, gw_close; rewrite He; reflexivity. }
   rewrite Hc, (IH o He). reflexivity.
 Qed.
+(* (TARGET) *)
 Theorem bx_error_sticks (o : gobj) (c : op) (x : String.string * list gval) : gobj_ok en K o -> go_err o = None ->
   fst (call o c) = Ret (Some x) ->
   go_err (snd (call o c)) = Some (fst x) /\
@@ -1666,7 +2686,7 @@ End Bx.
    GoAstProofs5b: armorEncoderStream.Write / Close over the base-X encoder that writes into the shared buffer)
    ================= *)
 Module Ar.
-Import GoAstProofs5b.
+Import GoAstProofs5b GoAstProofs5d.
 Import Bx.
 
 (* the armorEncoderStream object: the base-X encoder object, the pending characters (s.buf), nWords, the
@@ -1804,6 +2824,7 @@ Proof.
   split; [exact H2|]. intros Hall. destruct er as [x|]; [|reflexivity].
   exfalso. pose proof (H3 x eq_refl) as Hin. rewrite Forall_forall in Hall. discriminate (Hall _ Hin).
 Qed.
+(* (TARGET) *)
 Theorem ar_close_reports (st : ast) : inv st ->
   exists j er, fst (ar_close st) = Ret (werr er) /\
     w_sched (snd (ar_close st)) = skipn j (w_sched (a_w st)) /\
@@ -1868,7 +2889,7 @@ End Ar.
    the encryption stream, then the armor stream).  The step of the encryption stream is ONE armorEncoderStream.Write of
    the packet bytes; the encoder object is the armor stream object ([g_ast], read back by [d_ast]). *)
 Module Comp.
-Import GoAstProofs5b.
+Import GoAstProofs5b GoAstProofs5d.
 Import Bx.
 Import Ar.
 
@@ -1966,9 +2987,15 @@ Definition R (o1 o2 : gval) : Prop :=
     model_of st = snd (ae_writes (mkAe [] [] 0) pieces) /\
     written_log (a_w st) = W0 ++ fst (ae_writes (mkAe [] [] 0) pieces).
 
-Lemma arm_sim : step_sim R arm_step GoAstProofs5a.mem_enc.
+(* any in-memory packet writer: on the bytes written so far it appends and never fails (GoAstProofs5a/6a/6b.mem_enc) *)
+Definition is_mem (m : step) : Prop := forall out p, m (VBytes out) p = (VBytes (out ++ p), None).
+Lemma is_mem_5a : is_mem GoAstProofs5a.mem_enc. Proof. intros out p. reflexivity. Qed.
+Lemma is_mem_6a : is_mem GoAstProofs6a.mem_enc. Proof. intros out p. reflexivity. Qed.
+Lemma is_mem_6b : is_mem GoAstProofs6b.mem_enc. Proof. intros out p. reflexivity. Qed.
+
+Lemma arm_sim_gen (m : step) : is_mem m -> step_sim R arm_step m.
 Proof.
-  intros o1 o2 pkt (st & pieces & -> & Hinv & -> & Hm & Hw). unfold arm_step. rewrite d_ast_g.
+  intros Hmem o1 o2 pkt (st & pieces & -> & Hinv & -> & Hm & Hw). unfold arm_step. rewrite d_ast_g, Hmem.
   pose proof (write_model st pkt Hinv) as HM.
   destruct (ae_write (model_of st) pkt) as [out m'] eqn:Ew.
   destruct HM as (calls & j & er & Hcat & Hrc & Hret & Hinv' & Hm').
@@ -1980,6 +3007,8 @@ Proof.
   rewrite ae_writes_snoc, <- Hm, Ew. cbn [fst snd]. split; [exact (Hm' eq_refl)|].
   destruct (run_calls_ok _ _ _ _ Hrc) as [Hl _]. unfold written_log in *. rewrite Hl, concat_app, Hcat, Hw, app_assoc. reflexivity.
 Qed.
+Lemma arm_sim : step_sim R arm_step GoAstProofs5a.mem_enc.
+Proof. exact (arm_sim_gen _ is_mem_5a). Qed.
 
 (* (TARGET) NO SILENT LOSS for the composed stack.  The writer w0 (any schedule) holds W0; the armor stream is created on
    it, the encryption stream on the armor stream; init, then any calls on the encryption stream, then Close of the
@@ -2035,6 +3064,138 @@ Proof.
     as (stm & packets & H1 & H2 & H3).
   exists stm, (List.concat packets). split; [exact H1|]. split; [exact H2|].
   rewrite H3, <- armor_stream_seal. unfold armor_stream. rewrite <- app_assoc. reflexivity.
+Qed.
+
+(* go-codec's sticky encoder between the encryption stream and the armor stream *)
+Lemma codec_sim (R0 : gval -> gval -> Prop) (s1 s2 : step) : step_sim R0 s1 s2 ->
+  step_sim (fun o1 o2 => exists a, o1 = codec_obj a /\ R0 a o2) (codec s1) s2.
+Proof.
+  intros Hsim o1 o2 pkt (a & -> & HR). unfold codec, codec_obj. cbn [fst snd]. intros He.
+  destruct (Hsim a o2 pkt HR He) as [H1 H2]. split; [exact H1|].
+  exists (fst (s1 a pkt)). rewrite He. split; [reflexivity|exact H2].
+Qed.
+
+(* (TARGET) C14 AS WORDED for the real stack: encryptStream, go-codec's sticky encoder ([codec]), the armor stream, the
+   base-X encoder, a writer with any schedule.  If init, Write p1; ..; Write pn and Close of the encryption stream were
+   all made, that Close returned nil, and Close of the armor stream returned nil, then every call returned nil
+   and the writer holds exactly Armor62Seal of the complete ciphertext. *)
+Theorem stack_close_nil_complete (c : crypto) (header footer : bytes) (w0 : wr) (v : version) (sender : option bytes)
+        (rcpts : list rcpt) (ra rb rc : rng) (pieces : list bytes) (outs : list outc) (st' : GoAstProofs5a.es_state)
+        (oa : gval) (b : bool) (sta : ast) (wf : wr) :
+  written_log w0 = header ++ [dot; sp] ->
+  Enc.session c (codec arm_step) (Enc.fresh v (codec_obj (g_ast (fresh w0)))) v sender rcpts ra rb rc (session_ops pieces) = (outs, st') ->
+  List.length outs = S (S (List.length pieces)) -> last outs (Halt EmptyString) = Ret None ->
+  GoAstProofs5a.es_enc st' = VList [oa; VBool b] -> d_ast oa = Some sta ->
+  ar_close footer sta = (Ret None, wf) ->
+  all_nil outs /\
+  exists (stm : GoAstProofs5a.es_state) (msg : bytes),
+    Enc.session c GoAstProofs5a.mem_enc (Enc.fresh v (VBytes [])) v sender rcpts ra rb rc (session_ops pieces) = (outs, stm) /\
+    GoAstProofs5a.es_enc stm = VBytes msg /\
+    written_log wf = armor_seal msg header footer.
+Proof.
+  intros HW Hs Hl Hlast Henc Hd Hc.
+  pose proof (Enc.es_close_nil_all_nil c codec_broken (codec arm_step) (Enc.fresh v (codec_obj (g_ast (fresh w0))))
+                v sender rcpts ra rb rc pieces outs st' (codec_sticky arm_step) eq_refl Hs Hl Hlast) as Hn.
+  split; [exact Hn|].
+  set (W0 := header ++ [dot; sp]) in *.
+  assert (HR0 : exists a, codec_obj (g_ast (fresh w0)) = codec_obj a /\ R W0 a (VBytes [])).
+  { exists (g_ast (fresh w0)). split; [reflexivity|].
+    exists (fresh w0), []. split; [reflexivity|]. split; [apply fresh_inv|]. split; [reflexivity|].
+    split; [reflexivity|]. cbn [fresh a_w ae_writes fst]. rewrite app_nil_r. exact HW. }
+  destruct (Enc.session_sim c (codec arm_step) GoAstProofs5a.mem_enc _ (codec_sim (R W0) _ _ (arm_sim W0))
+              (Enc.fresh v (codec_obj (g_ast (fresh w0)))) (Enc.fresh v (VBytes [])) v sender rcpts ra rb rc _ outs st'
+              ltac:(split; [exact HR0|reflexivity]) Hs Hn) as (stm & Hsm & [HR _]).
+  destruct HR as (a & Ha & st & packets & He1 & Hinv & He2 & Hm & Hw).
+  rewrite Henc in Ha. unfold codec_obj in Ha. injection Ha as -> _.
+  rewrite He1, d_ast_g in Hd. injection Hd as <-.
+  exists stm, (List.concat packets). split; [exact Hsm|]. split; [exact He2|].
+  destruct (close_model footer st Hinv) as (calls & j & er & Hcat & Hrc & Hret).
+  rewrite Hc in Hret, Hrc. cbn [fst snd] in *. injection Hret as Her. destruct er as [x|]; [discriminate Her|].
+  destruct (run_calls_ok _ _ _ _ Hrc) as [Hl' _]. unfold written_log in *.
+  rewrite Hl', concat_app, Hcat, Hw, Hm, <- armor_stream_seal. unfold armor_stream. rewrite ae_session_writes.
+  subst W0. rewrite <- !app_assoc. reflexivity.
+Qed.
+
+(* what the armor stream's Close leaves in the writer, given the relation R at the end of the packet stream *)
+Lemma close_after_R (header footer : bytes) (oa o2 : gval) (sta : ast) (wf : wr) :
+  (exists a, VList [oa; VBool false] = codec_obj a /\ R (header ++ [dot; sp]) a o2) \/
+  R (header ++ [dot; sp]) oa o2 ->
+  d_ast oa = Some sta -> ar_close footer sta = (Ret None, wf) ->
+  exists msg, o2 = VBytes msg /\ written_log wf = armor_seal msg header footer.
+Proof.
+  intros HR Hd Hc.
+  assert (HR' : R (header ++ [dot; sp]) oa o2).
+  { destruct HR as [(a & Ha & HR)|HR]; [|exact HR]. unfold codec_obj in Ha. injection Ha as ->. exact HR. }
+  destruct HR' as (st & packets & He1 & Hinv & He2 & Hm & Hw).
+  rewrite He1, d_ast_g in Hd. injection Hd as <-.
+  exists (List.concat packets). split; [exact He2|].
+  destruct (close_model footer st Hinv) as (calls & j & er & Hcat & Hrc & Hret).
+  rewrite Hc in Hret, Hrc. cbn [fst snd] in *. injection Hret as Her. destruct er as [x|]; [discriminate Her|].
+  destruct (run_calls_ok _ _ _ _ Hrc) as [Hl' _]. unfold written_log in *.
+  rewrite Hl', concat_app, Hcat, Hw, Hm, <- armor_stream_seal. unfold armor_stream. rewrite ae_session_writes.
+  rewrite <- !app_assoc. reflexivity.
+Qed.
+
+Lemma R_fresh (W0 : bytes) (w0 : wr) : written_log w0 = W0 -> R W0 (g_ast (fresh w0)) (VBytes []).
+Proof.
+  intros HW. exists (fresh w0), []. split; [reflexivity|]. split; [apply fresh_inv|]. split; [reflexivity|].
+  split; [reflexivity|]. cbn [fresh a_w ae_writes fst]. rewrite app_nil_r. exact HW.
+Qed.
+
+(* (TARGET) the same for the attached-signature stream (NewSignArmor62Stream) ... *)
+Theorem sign_stack_close_nil_complete (c : crypto) (F : nat) (header footer : bytes) (w0 : wr) (v : version) (signer : option bytes)
+        (r : rng) (pieces : list bytes) (outs : list outc) (st' : GoAstProofs6a.sas_state)
+        (oa : gval) (sta : ast) (wf : wr) :
+  written_log w0 = header ++ [dot; sp] ->
+  SignA.session c F (codec arm_step) v (codec_obj (g_ast (fresh w0))) signer r (session_ops pieces) = (outs, Some st') ->
+  List.length outs = S (S (List.length pieces)) -> last outs (Halt EmptyString) = Ret None ->
+  GoAstProofs6a.sas_enc st' = VList [oa; VBool false] -> d_ast oa = Some sta ->
+  ar_close footer sta = (Ret None, wf) ->
+  all_nil outs /\
+  exists (stm : GoAstProofs6a.sas_state) (msg : bytes),
+    SignA.session c F GoAstProofs6a.mem_enc v (VBytes []) signer r (session_ops pieces) = (outs, Some stm) /\
+    GoAstProofs6a.sas_enc stm = VBytes msg /\
+    written_log wf = armor_seal msg header footer.
+Proof.
+  intros HW Hs Hl Hlast Henc Hd Hc.
+  pose proof (SignA.sas_close_nil_all_nil c F codec_broken (codec arm_step) _ v signer r pieces outs _
+                (codec_sticky arm_step) Hs Hl Hlast) as Hn.
+  split; [exact Hn|].
+  destruct (SignA.session_sim c F (codec arm_step) GoAstProofs6a.mem_enc _
+              (codec_sim (R (header ++ [dot; sp])) _ _ (arm_sim_gen (header ++ [dot; sp]) _ is_mem_6a))
+              v (codec_obj (g_ast (fresh w0))) (VBytes []) signer r _ outs _
+              (ex_intro _ (g_ast (fresh w0)) (conj eq_refl (R_fresh _ w0 HW))) Hs Hn) as (st1 & stm & Hst1 & Hsm & [HR _]).
+  injection Hst1 as <-. rewrite Henc in HR.
+  destruct (close_after_R header footer oa _ sta wf (or_introl HR) Hd Hc) as (msg & Hmsg & Hwf).
+  exists stm, msg. split; [exact Hsm|]. split; [exact Hmsg|exact Hwf].
+Qed.
+
+(* (TARGET) ... and for the signcryption stream (NewSigncryptArmor62SealStream) *)
+Theorem signcrypt_stack_close_nil_complete (c : crypto) (header footer : bytes) (w0 : wr) (signer : option bytes)
+        (boxes : list bytes) (syms : list (bytes * bytes)) (ra rk rb : bytes) (pieces : list bytes) (outs : list outc)
+        (st' : GoAstProofs6b.sss_state) (oa : gval) (sta : ast) (wf : wr) :
+  written_log w0 = header ++ [dot; sp] ->
+  Sc.session c (codec arm_step) (Sc.fresh (codec_obj (g_ast (fresh w0))) signer) boxes syms ra rk rb (session_ops pieces) = (outs, st') ->
+  List.length outs = S (S (List.length pieces)) -> last outs (Halt EmptyString) = Ret None ->
+  GoAstProofs6b.ss_enc st' = VList [oa; VBool false] -> d_ast oa = Some sta ->
+  ar_close footer sta = (Ret None, wf) ->
+  all_nil outs /\
+  exists (stm : GoAstProofs6b.sss_state) (msg : bytes),
+    Sc.session c GoAstProofs6b.mem_enc (Sc.fresh (VBytes []) signer) boxes syms ra rk rb (session_ops pieces) = (outs, stm) /\
+    GoAstProofs6b.ss_enc stm = VBytes msg /\
+    written_log wf = armor_seal msg header footer.
+Proof.
+  intros HW Hs Hl Hlast Henc Hd Hc.
+  pose proof (Sc.sss_close_nil_all_nil c codec_broken (codec arm_step) (Sc.fresh (codec_obj (g_ast (fresh w0))) signer)
+                boxes syms ra rk rb pieces outs st' (codec_sticky arm_step) eq_refl Hs Hl Hlast) as Hn.
+  split; [exact Hn|].
+  destruct (Sc.session_sim c (codec arm_step) GoAstProofs6b.mem_enc _
+              (codec_sim (R (header ++ [dot; sp])) _ _ (arm_sim_gen (header ++ [dot; sp]) _ is_mem_6b))
+              (Sc.fresh (codec_obj (g_ast (fresh w0))) signer) (Sc.fresh (VBytes []) signer) boxes syms ra rk rb _ outs st'
+              (conj (ex_intro _ (g_ast (fresh w0)) (conj eq_refl (R_fresh _ w0 HW))) eq_refl) Hs Hn) as (stm & Hsm & [HR _]).
+  rewrite Henc in HR.
+  destruct (close_after_R header footer oa _ sta wf (or_introl HR) Hd Hc) as (msg & Hmsg & Hwf).
+  exists stm, msg. split; [exact Hsm|]. split; [exact Hmsg|exact Hwf].
 Qed.
 
 (* the composed stack on a concrete schedule: header, then every writer call succeeds; and a writer that fails once *)
@@ -2104,16 +3265,38 @@ Print Assumptions Ar.ar_close_reports.
 Print Assumptions Ar.ar_not_sticky.
 Print Assumptions Comp.enc_armor_no_silent_loss.
 Print Assumptions Comp.enc_armor_no_silent_loss_seal.
+Print Assumptions Enc.es_no_nil_close_after_error.
+Print Assumptions Enc.es_close_nil_all_nil.
+Print Assumptions Enc.es_close_nil_complete.
+Print Assumptions Sc.sss_no_nil_close_after_error.
+Print Assumptions Sc.sss_close_nil_complete.
+Print Assumptions SignA.sas_no_nil_close_after_error.
+Print Assumptions SignA.sas_close_nil_complete.
+Print Assumptions SignD.sds_close_nil_all_nil.
+Print Assumptions Comp.stack_close_nil_complete.
+Print Assumptions codec_sticky.
+Print Assumptions codec_honest.
+Print Assumptions Enc.ex_enc_close_after_failed_write_codec.
+Print Assumptions Enc.es_logged_transparent.
+Print Assumptions SignA.sas_logged_transparent.
+Print Assumptions Sc.sss_logged_transparent.
+Print Assumptions SignA.sas_close_nil_all_nil.
+Print Assumptions Sc.sss_close_nil_all_nil.
+Print Assumptions Comp.sign_stack_close_nil_complete.
+Print Assumptions Comp.signcrypt_stack_close_nil_complete.
 Print Assumptions Enc.ex_enc_close_after_failed_write.
 Print Assumptions SignA.ex_sas_close_after_failed_write.
 Print Assumptions Sc.ex_sc_close_after_failed_write.
 Print Assumptions Ar.ex_ar_close_after_failed_write.
 
 (* NOT DONE (statements that would complete the picture):
-   - the two-sided form of the instrumentation lemma (a call on [logged s] returns, for EVERY outcome, what the call
-     on s returns, and the flag is the disjunction of the step errors of the call); proved here only for
-     nil-returning calls (es_write_logged_ok and the *_sim lemmas with logged_sim);
-   - go-codec's encoder itself (newEncoder over an io.Writer: may it split a packet over several Write calls, what
-     does it keep after a failed one) is not modelled: [step] abstracts it, as in GoAstProofs5a/6a/6b;
-   - the composed stack for the signing and signcryption streams (the proof of Comp only uses Enc.session_sim and
-     arm_sim; SignA.session_sim / Sc.session_sim take the same arm_sim). *)
+   - "the complete message" is stated against the never-failing in-memory instance (mem_enc) of the SAME specification
+     functions.  For signing and signcryption GoAstProofs6a/6b relate that instance to the model's senders
+     (sas_session_model, sds_session_model, sss_session_model / sss_seal_core); the header of GoAstProofs5a announces
+     es_write_model / es_close_model / es_session_model, but the compiled file has no such lemmas (only es_init_model),
+     so for encryptStream the link "in-memory instance = model's seal body" is not available to cite;
+   - go-codec's encoder itself (newEncoder over an io.Writer: it splits a packet over several Write calls - observed sizes
+     1, 1, 184, 1, ... - and keeps its first error) is not modelled beyond [codec]: [step] abstracts it, as in
+     GoAstProofs5a/6a/6b;
+   - the detached signer over the armor stream (NewSignDetachedArmor62Stream): one packet at the constructor, one at
+     Close; not stated separately. *)
